@@ -12,1012 +12,2583 @@ Definition show_fres (r : fres) : string :=
   end.
 Definition check (rs : list rune) : string := digest (show_fres (format_res rs)).
 Definition full (rs : list rune) : string := show_fres (format_res rs).
-Eval vm_compute in ("<<<M1981>>>" ++ check (runes_of_ascii "// top
-options {
-    // c1
-    LittleEndian = true;// c5a
-    // c5b
-    StringPrefixLenType = u64;// c9a
-    // c9b
-    ArrayPrefixLenType = u8;
-    // c13
-    FixedStringPadChar = '0';// c17
-}
-
-packet Reject {
-    // c21a
-    // c21b
-    i32 Ref,
-    // c24
-    repeat f64 OrderId,
-    // c28
-    repeat InNote12 {
-        // c31
-        u8 pad0,
-        // c34
+Eval vm_compute in ("<<<M3982>>>" ++ check (runes_of_ascii "packet lengthOf {
+    @leftPad(' ')
+    match len as As {
+        ""1"" : leftPad,
+        255 : Pad,
+        ""1"" : x,
+        4294967296 : u128,
+        // c
+        // packet A { u8 x, }
     },
-    @leftPad(' ')
-    // c40a
-    // c40b
-    char[6] count,// c45a
-    // c45b
-}
-
-// c46
-packet Logout {
-    // c49
-    zchar[6] Tail,
-    // c54
-    repeat string venue,
-    // c58
-}// c59a
-
-// c59b
-packet Cancel {
-    // c62a
-    // c62b
-    u64 count,
-    // c65
-    repeat char[5] lastPx,// c71a
-    // c71b
-    i64 Tail,
-    // c74
-    repeat InF140 {
-        // c77a
-        // c77b
-        repeat Logout,// c80
-        repeat Reject,// c83a
-        // c83b
-    },// c85
-}
-
-// c86
-root packet Trade {
-    repeat InMsgkind39 {
-        // c93a
-        // c93b
-        repeat Reject,
-        // c96
-        char[4] Px,
-    },// c103a
-    // c103b
-    string Acct,
-    uint16 price,// c109a
-    // c109b
-    f32 OrderId,// c112
-    u16 x,
-    u16 clOrdID @lengthOf(Body),
-    // c121
-    match x as Body {
-        178 : Logout,
-        // c130
-        13 : Cancel,
-        // c134a
-        // c134b
-        174 : Reject,
-        // c138a
-        // c138b
-    },// c140
-    u16 Flags @calculatedFrom(""CRC32""),
-    // c146
-}")).
-Eval vm_compute in ("<<<M275>>>" ++ check (runes_of_ascii "options { u =""a\""b""
-//	t
-//
-;
-    Z9_ =""// no comment"" ; tag
-    // " ++ [27880; 37322]%N ++ runes_of_ascii "
-    =7 } root packet
-    // trailing space 
-    As { }
-packet Header { @lengthOf(
-    Foo )  rootA
-@calculatedFrom( ""\" ++ [233]%N ++ runes_of_ascii """ ) , @calculatedFrom( ""CRC32""// a // b
-)
-    float64 crc
-,  repeat char[ // packet A { u8 x, }
-007
-] Logon , //
-@tag( 7
-    )
-//
-// c
-@calculatedFrom( ""{,}"" ) @lengthOf( stringy
-) match //	t
-A as
-// " ++ [128512]%N ++ runes_of_ascii " emoji
-// `tick` ""quote"" 'q'
-f32a {
-    // `tick` ""quote"" 'q'
-    [""a\\""
-,	1 , ""CRC32"" , 007 ,	""a	b"" , ""\" ++ [233]%N ++ runes_of_ascii """ ] :trueish, 4294967296
-    :
-// c
-//x
-u8x ,//
-}  ,
-@tag(
-255 ) @lengthOf( u8x
-    )
-@calculatedFrom( ""x y""
-    ) pack { uint16 uint8x
-    ,
-    }
-, match
-leftPad as
-asx {""{,}"" : T 007
-    //	t
-    : // @lengthOf(
-_x
-    1  : options1
-,
-    [ 42	,007]// a // b
-:calculatedFrom
-, """ ++ [233]%N ++ runes_of_ascii "t" ++ [233]%N ++ runes_of_ascii """ :
-    lengthOf } ,
-    u8x {int64 charz
-`line1
-line2`,
-} , repeat
-    //x
-    Header BodyLength `
-`  ,
-@rightPad  ( // `tick` ""quote"" 'q'
-'\x00' ) @lengthOf( tag )
-    match o // trailing space 
-as
-    uint8x {
-[ 255 ] :
-_x ,1 :
-    matchKey ,
-// " ++ [128512]%N ++ runes_of_ascii " emoji
-//x
-65535
-:
-// c
-// @lengthOf(
-tag
-,  0123456789: zchar,
-""a\\"" :metadata
-    ,
-    }	, }
-")).
-Eval vm_compute in ("<<<M80>>>" ++ check (runes_of_ascii "// `tick` ""quote"" 'q'
-packet	rootA{ }
-root
-packet x_y_z {
-// `tick` ""quote"" 'q'
-// packet A { u8 x, }
-@calculatedFrom( """ ++ [28040; 24687]%N ++ runes_of_ascii """  )// a // b
-@tag( 4294967296) @leftPad	(	'\x00')  match Z9_ as len // c
-{0: x_y_z /// triple
-, [ 255 , 007 ] : string_["""" ,
-""`tick`"" , """" ,
-10 ,""it's"" ,
-    """ ++ [233]%N ++ runes_of_ascii "t" ++ [233]%N ++ runes_of_ascii """ ]	: BodyLength	, 4294967296 : u,4294967296
-    // " ++ [27880; 37322]%N ++ runes_of_ascii "
-    :	Header ,
-""packet"": trueish , }
-,
-match int as asx { 007 : leftPad , ""abc"":
-_x
-65535 :stringy ""CRC32"" : int , 255 : A }, match asx as a1  {	[ 0123456789 ]: crc,""packet"" : leftPad ,
-    ""\n"" : //x
-crc
-, 10
-    //x
-    :
-// a // b
-// a // b
-chars ,},
-    i16
-rootA @calculatedFrom(
-""abc"" ) , @lengthOf(Pad)  rootA As`" ++ [233]%N ++ runes_of_ascii "`,match i64_
-    //	t
-    as packetx{	[ """ ++ [28040; 24687]%N ++ runes_of_ascii """ ] :repeatCount
-, 65535 : i8i8 ,
-    } , // a // b
-stringy len , }packet o{
-} packet
-Header {	_x
-string_ ,
-@lengthOf(
-    u8x )
-lengthOf `it's`
-, } options
-    { A // trailing space 
-= ""it's"";
-zchar
-= ""packet"" ; // " ++ [128512]%N ++ runes_of_ascii " emoji
-len
-= 4294967296 ; T= ""abc""int
-    =
-3 ; }
-")).
-Eval vm_compute in ("<<<M1854>>>" ++ check (runes_of_ascii "packet trueish {
-    char[7] chars @calculatedFrom(""" ++ [128512]%N ++ runes_of_ascii """),
-    char[] uint8x @calculatedFrom(""`tick`"") `
-        `,
-    int16 metadata @calculatedFrom(""" ++ [128512]%N ++ runes_of_ascii """) `doc`,
-    pack @lengthOf(stringy),
-    u8 float @lengthOf(leftPad),
-    @lengthOf(chars)
-    f32a trueish,
-    repeat zchar[4294967296] u,
-    @leftPad(' ')
+    @rightPad()
+    crc `say ""hi""`,
     @lengthOf(leftPad)
-    @tag(7)
-    repeat string u128,
-}
-
-packet Header {
-    u64 leftPad,
-    @lengthOf(u128)
-    repeat uint32 T,
-    @tag(4294967296)
-    repeat uint32 x_y_z ``,
-    T,
-    @tag(1)
-    zchar[7] Packet @lengthOf(f32a),// trailing space 
-    float32 lengthOf,// packet A { u8 x, }
-    i32 calculatedFrom `crlf
-        line`,
-    @tag(0123456789)
-    @tag(1)
-    //
-    // `tick` ""quote"" 'q'
-    @calculatedFrom(""" ++ [128512]%N ++ runes_of_ascii """)
-    float32 lengthOf @calculatedFrom(""\n"") `" ++ [233]%N ++ runes_of_ascii "`,
-    zchar[007] zchar @calculatedFrom(""abc"") `" ++ [28040; 24687; 31867; 22411]%N ++ runes_of_ascii "`,
-    int32 roots,
-}")).
-Eval vm_compute in ("<<<M1549>>>" ++ check (runes_of_ascii "root packet lengthOf {
-    repeat char[] asx `// not a comment`,
-    lengthOf {
-        string options1,
-        char[] A @calculatedFrom(""\n""),
-        int16 trueish,
+    @calculatedFrom(""a\\"")
+    repeat char[] _x `100% of %d`,
+    repeatCount asx,
+    repeat u {
+        match falsey as i8i8 {
+            """ ++ [233]%N ++ runes_of_ascii "t" ++ [233]%N ++ runes_of_ascii """ : float,
+            [""\n""] : _x,
+            ""CRC32"" : roots,
+            7 : matchKey,
+            ""packet"" : Foo,
+            ""1"" : int,
+        },
     },
-    repeat int16 stringy,
-    string Logon `{ , }`,
-    @lengthOf(metadata)
-    match trueish as Foo {
-        00 : T,
-        7 : Z9_,
+    i8 x `
+        `,
+    MetaDataX @lengthOf(f32a),
+    charz {
+        tag @calculatedFrom(""a\\""),
+        MetaDataX @lengthOf(matchKey),
+        int16 msg_type,
     },
-    string_ a1 `" ++ [28040; 24687; 31867; 22411]%N ++ runes_of_ascii "`,
-}
-
-packet zchar {
     @calculatedFrom(""x y"")
-    repeatCount `
-        `,
-    match stringy as u {
-        255 : charz,
+    match x_y_z as Z9_ {
+        1 : lengthOf,
+        255 : u128,
+        ""it's"" : Z9_,
+        // @lengthOf(
+        // 50% %s
+        42 : len,
     },
-    zchar[0123456789] Z9_ @lengthOf(crc) `it's`,
-    @leftPad('\x00')
-    zchar[0] rootA @calculatedFrom(""CRC32""),
-    @lengthOf(leftPad)
+    //
+    match calculatedFrom as crc {
+        [
+            0123456789, 255, ""packet"", ""it's"", 0,
+            ""\n"", 1, 0123456789
+        ] : calculatedFrom,
+        65535 : _x,
+        ""CRC32"" : tag,
+        [""`tick`""] : T,
+        [
+            ""it's"", ""it's"", 0123456789, """ ++ [128512]%N ++ runes_of_ascii """, 4294967296,
+            ""`tick`""
+        ] : pack,
+    },
+}
+
+packet u8x {
+}
+
+root packet string_ {
+    @tag(3)
+    char[] crc,
+    @rightPad('\x00')
+    @leftPad(' ')
+    //x
     // packet A { u8 x, }
-    Foo @calculatedFrom(""{,}""),
-    uint32 Foo `// not a comment`,
-    f32 float,
-    repeat matchKey,
-    Logon @lengthOf(rootA) `" ++ [28040; 24687; 31867; 22411]%N ++ runes_of_ascii "`,
+    repeat char[42] Foo,
+    @calculatedFrom(""{,}"")
+    string stringy @lengthOf(chars),
+    @tag(1)
+    zchar[007] charz `" ++ [28040; 24687; 31867; 22411]%N ++ runes_of_ascii "`,
+    repeat msg_type {
+        char uint8x `say ""hi""`,
+        char[00] options1 @calculatedFrom(""" ++ [233]%N ++ runes_of_ascii "t" ++ [233]%N ++ runes_of_ascii """) `" ++ [233]%N ++ runes_of_ascii "`,
+        matchKey @calculatedFrom(""1""),
+    },
+    @tag(0123456789)
+    zchar[00] lengthOf,
+    @tag(3)
+    falsey As,
+}
+
+packet lengthOf {
+    chars {
+        Packet `two words`,//
+        char[7] a1 @calculatedFrom(""\" ++ [233]%N ++ runes_of_ascii """) `doc`,
+        charz @calculatedFrom(""" ++ [233]%N ++ runes_of_ascii "t" ++ [233]%N ++ runes_of_ascii """),
+    },
+    @lengthOf(body)
+    match metadata as BodyLength {
+        ""abc"" : chars,
+        255 : o,
+    },
+    leftPad,
+    repeat uint32 Logon,
 }")).
-Eval vm_compute in ("<<<M1453>>>" ++ check (runes_of_ascii "options {
-    StringPrefixLenType = u16;
-    ArrayPrefixLenType = u32;
-    FixedStringPadFromLeft = false;
-    FixedStringPadChar = '0';
+Eval vm_compute in ("<<<M612>>>" ++ check (runes_of_ascii "  packet a1
+{ @calculatedFrom("""" )
+int16 i64_ @calculatedFrom( """ ++ [233]%N ++ runes_of_ascii "t" ++ [233]%N ++ runes_of_ascii """ ) , len stringy , zchar[ 007]uint8x ,@lengthOf(
+    Packet  )@calculatedFrom( ""packet"" ) @calculatedFrom( ""\" ++ [233]%N ++ runes_of_ascii """ )
+repeat trueish `tab	here` ,
+repeatCount {repeat charz
+    i8i8 `line1
+line2`, repeat u16	falsey `line1
+line2` , char[]
+    /// triple
+    pack ,
+    // `tick` ""quote"" 'q'
+    } ,
+string packetx/// triple
+,
+    repeat
+Packet // 50% %s
+,
+    @calculatedFrom(""packet"" )	string
+    msg_type
+    @lengthOf( options1 ),char[
+    00 // `tick` ""quote"" 'q'
+] f32a
+@lengthOf(  As ) ,
+tag @lengthOf(
+MetaDataX
+    //x
+    ) , }
+packet
+f32a { a1
+`two words` ,
+    } MetaData A
+// " ++ [128512]%N ++ runes_of_ascii " emoji
+/// triple
+{ len Header , i16	_x
+    //	t
+    ,i32
+    //	t
+    f32a	,uint8 Packet`a\` , uint8x i64_  , char[] packetx,	} packet
+    T {
+@calculatedFrom(
+""a	b"" //
+) _x x_y_z , @leftPad ( '\x00'	)
+@lengthOf(o
+) @rightPad	(
+    //	t
+    '\x00'
+    ) match tag	as MetaDataX
+    { 007 :
+Header, 3 :  stringy,
+[  7
+, 00]:
+T
+, [
+4294967296,42 ] : i8i8
+    ,	} , repeat As , } packet packetx{ @calculatedFrom( ""`tick`"" )	@leftPad ( ) @calculatedFrom( ""\" ++ [233]%N ++ runes_of_ascii """
+)BodyLength // `tick` ""quote"" 'q'
+options1 , @calculatedFrom( """" // packet A { u8 x, }
+) @lengthOf( rootA )@lengthOf(metadata )charz @calculatedFrom( ""abc"")  , // " ++ [27880; 37322]%N ++ runes_of_ascii "
+@lengthOf( body	) tag
+    @calculatedFrom(
+    ""it's""	)
+    ,
+repeat zchar[ 255 ]
+_x
+    // @lengthOf(
+    ,
+repeat i64  f32a`doc` ,	string repeatCount @calculatedFrom( ""packet"")
+`{ , }`  ,	repeat
+uint32
+    stringy`line1
+line2` // @lengthOf(
+, T ,@calculatedFrom( """ ++ [128512]%N ++ runes_of_ascii """
+)a1  {
+    repeat zchar[3 // a // b
+] //
+Foo
+`crlf
+line`
+    , }
+,  }
+")).
+Eval vm_compute in ("<<<M232>>>" ++ check (runes_of_ascii "options {
+trueish
+=  ""1"" ;	u8x = ""x y""}packet metadata { _x { repeat Pad { match packetx as leftPad { 3 // trailing space 
+: A , }, metadata ,
+    char[ 4294967296
+] falsey@calculatedFrom( ""x y"" ) `// not a comment`,
 }
-packet Logout {
-    f64 f1,
-    i16 Note,
-    @rightPad('\x00') char[11] Flags,
+,
+    } , } packet As {
+    string x_y_z,  @lengthOf( chars ) @calculatedFrom(	""" ++ [233]%N ++ runes_of_ascii "t" ++ [233]%N ++ runes_of_ascii """) int8 f32a
+, }packet As { @calculatedFrom( ""it's"" ) int64 msg_type// trailing space 
+@calculatedFrom(
+    // 50% %s
+    ""a\""b"" )`a\` ,options1  , @lengthOf( // " ++ [128512]%N ++ runes_of_ascii " emoji
+roots
+//
+// " ++ [27880; 37322]%N ++ runes_of_ascii "
+)
+    int64
+int
+@lengthOf( Pad
+) `two words` , @tag(
+    4294967296
+    )@calculatedFrom(""CRC32""
+)
+    // " ++ [128512]%N ++ runes_of_ascii " emoji
+    int8 int ,repeat	u8 A `u8 x,`	, A asx
+`a\` , A  {
+f32 //
+x ,
+    // packet A { u8 x, }
+    x_y_z @lengthOf(metadata ) , } ,a1 @lengthOf( u128
+    )`u8 x,` , }packet options1 { rootA@calculatedFrom(""\" ++ [233]%N ++ runes_of_ascii """ ),repeat body
+    { uint16 BodyLength `line1
+line2`
+, repeat // packet A { u8 x, }
+string_ {
+repeat falsey
+{
+    repeat
+    // @lengthOf(
+    i16
+As `" ++ [233]%N ++ runes_of_ascii "` , }
+,As tag `u8 x,` , } , repeat
+    string options1 ,
+} , char[]	uint8x @calculatedFrom( ""`tick`"" )
+    ,	repeat char[] rootA `a\`
+, @lengthOf( uint8x
+)Packet // packet A { u8 x, }
+x_y_z , char[ 10
+    ]Header @lengthOf( calculatedFrom )`say ""hi""` , repeat chars  , repeat
+options1 {
+//x
+// @lengthOf(
+zchar[/// triple
+1 ]
+roots @calculatedFrom( """ ++ [28040; 24687]%N ++ runes_of_ascii """ )
+, repeat i8 As
+//x
+// c
+`tab	here`, repeat matchKey string_
+`// not a comment`
+//x
+/// triple
+,  } , }")).
+Eval vm_compute in ("<<<M3926>>>" ++ check (runes_of_ascii "// trailing space 
+root packet x {
+    // @lengthOf(
+    repeat zchar[7] i64_,
 }
-packet Cancel {
-    float64 msgKind,
+
+packet As {
+    @calculatedFrom(""" ++ [28040; 24687]%N ++ runes_of_ascii """)
+    o `" ++ [28040; 24687; 31867; 22411]%N ++ runes_of_ascii "`,
+    string a1 `u8 x,`,
+    @lengthOf(rootA)
+    // " ++ [128512]%N ++ runes_of_ascii " emoji
+    repeat uint32 lengthOf `// not a comment`,
+    @rightPad(' ')
+    u128 T,
 }
-packet Reject {
-    InQty43 {
-        float32 sym,
-        char[10] Tail,
-        uint8 venue,
-        uint16 f1,
-        char[9] Acct,
+
+options {
+    A = ""\" ++ [233]%N ++ runes_of_ascii """
+    float = char[65535];
+    calculatedFrom = ""packet"";// @lengthOf(
+    lengthOf = false;
+}
+
+root packet lengthOf {
+    // `tick` ""quote"" 'q'
+    uint16 x_y_z `a\`,
+    f32 T,
+    len @lengthOf(repeatCount),
+    i8 chars @lengthOf(Z9_) `say ""hi""`,
+    @leftPad(' ')
+    float32 _x `doc`,
+    @calculatedFrom(""{,}"")
+    zchar @lengthOf(i8i8),
+    repeat char[1] repeatCount `two words`,
+    @calculatedFrom(""{,}"")
+    @calculatedFrom(""abc"")
+    @lengthOf(stringy)
+    MetaDataX,
+    string len `100% of %d`,
+    @leftPad(' ')
+    match calculatedFrom as Logon {
+        [""// no comment""] : MetaDataX,
+        ""a\""b"" : f32a,
+        [
+            3, 4294967296, 0123456789, ""{,}"", ""x y"",
+            3
+        ] : i8i8,
+    },// 50% %s
+}
+
+packet crc {
+    repeat packetx,
+    @leftPad('0')
+    pack `tab	here`,
+    Pad,
+    @calculatedFrom(""abc"")
+    u64 i64_ `tab	here`,
+    @tag(0123456789)
+    // trailing space 
+    zchar[255] u,
+    match tag as x {
+        255 : u128,
     },
+}")).
+Eval vm_compute in ("<<<M3892>>>" ++ check (runes_of_ascii "  // " ++ [27880; 37322]%N ++ runes_of_ascii "
+  	packet
+
+    chars
+
+{ // c
 }
-packet Trade {
-    char[] x,
-    zchar[6] Note,
-    repeat Reject,
+
+    packet
+Z9_ 
+{
+
+    falsey
+
+// packet A { u8 x, }
+  @calculatedFrom(""x y""
+) `// not a comment`
+	,
+string  Foo@calculatedFrom(	""""// @lengthOf(
+	)  // a // b
+  ,
+repeat o i64_	,
+@tag(
+
+0123456789	)
+
+    repeat // " ++ [128512]%N ++ runes_of_ascii " emoji
+		uint16 T 
+,match  trueish as// packet A { u8 x, }
+		MetaDataX
+
+{ 0123456789 :MetaDataX  ,
+3
+	:
+
+trueish 
+,// `tick` ""quote"" 'q'
+  [
+42 ,
+
+7	//
+]
+    :
+    u8x
+	,
+/// triple
+    ""1""
+
+: 
+Z9_ 
+    //
+	, },  uint32	// @lengthOf(
+zchar ,
+As 
+{
+
+Z9_, Z9_
+    { 
+    //
+zchar[7 
+]
+
+float 
+      // " ++ [128512]%N ++ runes_of_ascii " emoji
+// c
+    	`it's` ,
+
+    Z9_ @lengthOf( 
+options1
+
+)
+
+    ,stringy @lengthOf(
+	i64_)
+
+    ,  /// triple
+
+  }
+
+,u8	metadata `u8 x,`
+,
 }
-root packet Order {
-    Cancel,
-    Logout,
-    u64 Acct,
-    u32 OrderId,
-    match OrderId as Body {
-        [127, 70] : Reject,
-        177 : Trade,
-        58 : Logout,
-        75 : Cancel,
-    },
-    u32 Tail @calculatedFrom(""CRC32""),
+/// triple
+  	,
+@calculatedFrom(""x y""	//
+		) @calculatedFrom(""" ++ [28040; 24687]%N ++ runes_of_ascii """
+)
+@lengthOf(int ) match 	 // trailing space 
+float 
+as 	 // 50% %s
+  matchKey  {
+	7	:rootA
+
+    ,
+	}
+
+,
+
+@calculatedFrom(
+""" ++ [128512]%N ++ runes_of_ascii """ )
+    repeat	string
+    Logon,
+}	options 
+{
+
+    metadata 
+= 
+    // `tick` ""quote"" 'q'
+		float32 packetx
+	= true;Foo =
+	'\x00';
+	A	=
+	u16	;  } MetaData 
+crc{	// " ++ [27880; 37322]%N ++ runes_of_ascii "
+	  int8 
+uint8x
+    , zchar[ 0  ] 
+// `tick` ""quote"" 'q'
+	// 50% %s
+A
+,
+} ")).
+Eval vm_compute in ("<<<M4489>>>" ++ check (runes_of_ascii "  // c
+
+  packet
+
+    body
+{ 
+match Header
+    as
+	u128
+
+    {
+3
+	:
+i8i8
+, 	 // c
+    [
+    ""`tick`""] 	 /// triple
+:  u8x ,
+
+""" ++ [128512]%N ++ runes_of_ascii """
+:
+T  
+      //
+  [65535 
+]: // " ++ [128512]%N ++ runes_of_ascii " emoji
+      calculatedFrom
+    ,
+
+007
+	:
+    trueish
+,
+}
+
+, 
+	    //
+    rootA {u16	//x
+	stringy @calculatedFrom( ""a\\""
+	)
+
+,
+
+    match
+    BodyLength
+// " ++ [27880; 37322]%N ++ runes_of_ascii "
+		as falsey
+
+{	""\" ++ [233]%N ++ runes_of_ascii """
+	:
+u8x  , [
+""`tick`""	,  // @lengthOf(
+
+""a\\"" 
+]
+
+    : 
+MetaDataX
+	,
+
+    [
+7
+    ]  :
+    float,
+255: i8i8 // packet A { u8 x, }
+
+	,10
+: packetx
+	""a	b"" 
+:
+
+f32a
+	,} ,	// packet A { u8 x, }
+
+	repeat  crc {
+	Z9_
+@calculatedFrom(""{,}""),
+
+    repeat int
+{	f32a _x , 
+      // @lengthOf(
+  	// trailing space 
+	  }
+, 
+u8
+
+T
+
+`a\` , } 
+,match x_y_z
+
+    as
+    roots
+{
+	[ ""`tick`""
+, 
+""\" ++ [233]%N ++ runes_of_ascii """
+,
+
+1
+
+, 
+007 ,3 , """" 
+,	4294967296 
+, 255	]
+
+: rootA
+        //
+,
+
+    3	:
+body
+
+,  [
+	""a	b""
+, ""{,}""	, 
+""abc"", ""a\""b""
+
+    ] // 50% %s
+
+	: Foo ,  //
+  """"
+
+    :tag
+
+,
+}, },
+char[
+
+0
+]
+chars
+    @lengthOf(
+calculatedFrom
+	)
+`line1
+line2`
+
+    ,
+
+    repeat 
+Logon
+    uint8x  `two words`, repeat //x
+		i32
+    MetaDataX 
+
+    //
+//x
+		,
+
+} ")).
+Eval vm_compute in ("<<<M932>>>" ++ check (runes_of_ascii "root packet falsey { // @lengthOf(
+@tag(
+    // packet A { u8 x, }
+    0123456789 ) u	{ char
+    tag`u8 x,` ,i16// " ++ [27880; 37322]%N ++ runes_of_ascii "
+pack@lengthOf(//	t
+charz
+),
+repeat u128 options1`" ++ [28040; 24687; 31867; 22411]%N ++ runes_of_ascii "` , } ,
+@lengthOf( // " ++ [27880; 37322]%N ++ runes_of_ascii "
+tag ) Z9_ @lengthOf( zchar // " ++ [128512]%N ++ runes_of_ascii " emoji
+) , calculatedFrom
+    @lengthOf(  pack) `it's`	,
+@lengthOf(MetaDataX )repeat  Foo, } packet
+u8x
+{ // 50% %s
+@calculatedFrom( ""\" ++ [233]%N ++ runes_of_ascii """ )float32 crc,@lengthOf( stringy) u ,@tag(
+4294967296)@tag(4294967296	)
+@lengthOf( Foo )
+    int16 x	`it's`// a // b
+,
+    // " ++ [128512]%N ++ runes_of_ascii " emoji
+    }// c
+root packet	leftPad{
+}
+    // packet A { u8 x, }
+    packet u128 { a1
+,@lengthOf( o )
+// @lengthOf(
+// packet A { u8 x, }
+@calculatedFrom( ""\n"" )
+@calculatedFrom(
+""a\\""
+) match u
+as chars
+    { [ ""`tick`"" ,
+0
+    ,
+// packet A { u8 x, }
+// packet A { u8 x, }
+007  , ""\n"" ,	""\" ++ [233]%N ++ runes_of_ascii """ ,65535 , 42 ]
+    :
+    u , 00: packetx """ ++ [28040; 24687]%N ++ runes_of_ascii """ :
+falsey 10 :Packet ""CRC32""
+: o , [""\" ++ [233]%N ++ runes_of_ascii """	] : falsey , } , /// triple
+match
+    // `tick` ""quote"" 'q'
+    Foo as x	{ 1
+:	tag },
+crc  A , stringy falsey
+`tab	here`
+,
+    Pad
+    , charz,uint32 i64_ ,
 }
 ")).
-Eval vm_compute in ("<<<M113>>>" ++ check (runes_of_ascii "root packet Pad{ @lengthOf( _x) As i8i8 ,f32 lengthOf
-`a\`	,
-    // " ++ [27880; 37322]%N ++ runes_of_ascii "
-    repeat len  `tab	here` , zchar[ //	t
-3 ] body, int8 matchKey
-    `crlf
-line` ,}
-    MetaData metadata { matchKey  packetx
-    ,
-}
-    packet options1	{ repeat charz `line1
-line2`, int8 options1
-    // " ++ [27880; 37322]%N ++ runes_of_ascii "
-    ,
-    repeat	roots
-{
-repeat	float32	x_y_z `say ""hi""`,	}
-// c
-// a // b
-,int64 options1 // `tick` ""quote"" 'q'
-`line1
-line2` , match  falsey
-as falsey
+Eval vm_compute in ("<<<M4155>>>" ++ check (runes_of_ascii "  options
     {
-    [ ""// no comment""// packet A { u8 x, }
-, """"]:_x  , 42 : // @lengthOf(
-crc ""packet"" : repeatCount, """ ++ [128512]%N ++ runes_of_ascii """
-    //	t
-    :u8x , ""abc""
-: falsey, } , repeat	float64
-x_y_z `a\`,
-}")).
-Eval vm_compute in ("<<<M1494>>>" ++ check (runes_of_ascii "packet float	{char[ 
-00
+options1
 
-    ] u8x 
-,
-    }
-    packet // " ++ [128512]%N ++ runes_of_ascii " emoji
-	A	// @lengthOf(
+=
+	// a // b
+
+  0 ; u	=
+
+    true 
+_x= true	; uint8x
+	=
+    false	;} packet
+
+    falsey {
+}
+packet falsey{
+	repeat
+
+zchar[ 00]  len ,
+	// " ++ [27880; 37322]%N ++ runes_of_ascii "
+      }
+	packet
+u128
 {
-    string i8i8
+    len 
+    //	t
+	`100% of %d`,  // " ++ [27880; 37322]%N ++ runes_of_ascii "
+      uint8	roots
+
+`{ , }`	,@rightPad
+(
+' '// @lengthOf(
+    )
+	repeat
+
+    int,
+
+@calculatedFrom(
+    ""// no comment""
+
+)
+Header
+	@calculatedFrom( """ ++ [233]%N ++ runes_of_ascii "t" ++ [233]%N ++ runes_of_ascii """
+
+)  ,
+
+    string roots
+, repeat	Pad
+{ char[]
+	i64_
+	@lengthOf( //	t
+
+  lengthOf
+	    //x
+		/// triple
+) 
+
+// trailing space 
+  `" ++ [28040; 24687; 31867; 22411]%N ++ runes_of_ascii "` 
+,	char
+
+body ,i8 a1 @lengthOf( o  )
+
+    ,} , 
+match x_y_z 
+    /// triple
+	// @lengthOf(
+  	as 
+roots
+{
+    [
+
+    ""CRC32""	,
+""a\\""
+
+]
+	:
+    MetaDataX
+
+, 
+7
+
+:
+repeatCount,
+""// no comment""
+: 
+T
+	[	// @lengthOf(
+  007	,	""\" ++ [233]%N ++ runes_of_ascii """
+	]	// 50% %s
+	:
+
+_x , 
+    //	t
+      [""" ++ [28040; 24687]%N ++ runes_of_ascii """  , 
+""abc""
+    ]
+:
+u
+
     ,
-	A 	 //x
-  @calculatedFrom(
+    [ 
+"""" 	 //
+    	]:i8i8 // `tick` ""quote"" 'q'
+  }  , 	 // " ++ [128512]%N ++ runes_of_ascii " emoji
+  	int64
 
-    ""a	b""
+    repeatCount 
+`// not a comment`
+,  } ")).
+Eval vm_compute in ("<<<M1135>>>" ++ check (runes_of_ascii "// c
+packet body  {
+match Header as u128
+{
+3
+    : i8i8
+,// c
+[	""`tick`""	]/// triple
+:u8x, """ ++ [128512]%N ++ runes_of_ascii """ : T
+    //
+    [65535] : // " ++ [128512]%N ++ runes_of_ascii " emoji
+calculatedFrom
+    ,007: trueish, }	,
+    //
+    rootA { u16 //x
+stringy @calculatedFrom(	""a\\"") , match BodyLength
+    // " ++ [27880; 37322]%N ++ runes_of_ascii "
+    as
+    falsey { ""\" ++ [233]%N ++ runes_of_ascii """ :u8x
+, [ ""`tick`"", // @lengthOf(
+""a\\"" ] : MetaDataX, [ 7
+]:
+    float ,  255 : i8i8 // packet A { u8 x, }
+,
+10
+: packetx
+""a	b""
+    : f32a
+    ,}
+, // packet A { u8 x, }
+repeat crc
+    { Z9_
+@calculatedFrom(""{,}"" ),repeat int	{f32a
+_x  ,
+// @lengthOf(
+// trailing space 
+}, u8
+T
+    `a\` , }
+    ,
+match
+x_y_z as
+roots {[ ""`tick`""	,""\" ++ [233]%N ++ runes_of_ascii """ ,1 , 007 ,
+    3 , """"
+, 4294967296
+    ,
+255 ] :
+    rootA
+    //
+    , 3 : body ,
+[ ""a	b""
+,""{,}"",""abc"" ,
+    ""a\""b"" ] // 50% %s
+:
+    Foo , //
+""""
+: tag
+, } ,	} ,char[ 0 ] chars@lengthOf(calculatedFrom ) `line1
+line2` , repeat
+    Logon
+uint8x `two words` , repeat //x
+i32
+    MetaDataX
+//
+//x
+,}")).
+Eval vm_compute in ("<<<M929>>>" ++ check (runes_of_ascii "root
+packet MetaDataX{ }
+options
+{ As=
+    255 lengthOf =  '\x00' roots /// triple
+= '0' }
+root
+packet T {// " ++ [27880; 37322]%N ++ runes_of_ascii "
+pack{ char[ // trailing space 
+10] lengthOf
+    ,char[ // 50% %s
+4294967296
+] stringy , leftPad
+@lengthOf(x_y_z
+    ) ,repeat tag { match o as
+x_y_z
+{ [  """ ++ [233]%N ++ runes_of_ascii "t" ++ [233]%N ++ runes_of_ascii """ ,0123456789	, 10 ,4294967296 ,	""" ++ [233]%N ++ runes_of_ascii "t" ++ [233]%N ++ runes_of_ascii """] :u [  ""// no comment""
+, ""{,}"" ] :	i64_ ""\" ++ [233]%N ++ runes_of_ascii """
+    // @lengthOf(
+    :
+    falsey } , match i64_ as i8i8 {
+1	:// " ++ [128512]%N ++ runes_of_ascii " emoji
+o 007 :  trueish,//
+} , matchKey	@lengthOf( a1 ) , } ,
+    }
+,
+    // `tick` ""quote"" 'q'
+    uint8 // " ++ [27880; 37322]%N ++ runes_of_ascii "
+i8i8 @calculatedFrom( ""CRC32"" ) ,
+@lengthOf(u128
+) @lengthOf(zchar ) uint64	Z9_ `// not a comment`
+,
+int32 tag
+    // @lengthOf(
+    `" ++ [233]%N ++ runes_of_ascii "` ,  @lengthOf( pack)
+match msg_type
+    // a // b
+    as u8x { 255 :
+f32a,0123456789:msg_type ,
+// trailing space 
+//
+} ,
+    @lengthOf( //	t
+zchar
+)rootA,
+    } MetaData	Pad {  u16
+packetx,  }
+")).
+Eval vm_compute in ("<<<M4156>>>" ++ check (runes_of_ascii "options // c
+{  As  = false}  packet
 
-) `a\`
+falsey
 
-    ,  @tag(1
-	) chars  @lengthOf(
-Pad
+{ @lengthOf(
+	float
+) @calculatedFrom(
+""\n"")  u32 As
+	,
+    match
+leftPad
 
-    ) 
-`u8 x,` 
-,	/// triple
-  match 
+    as
+
 repeatCount
 
-    as  stringy
-{
-    42
+{ 0
+:	Z9_, 1 : repeatCount
+	, [	65535 ] // trailing space 
+	: // c
+Pad 00:
 
-    :x  3
-	:	// @lengthOf(
-    tag
-,[
-    00  , 0123456789 ]  : 
-packetx
+packetx 
+""a\\""
+    :	packetx 
+, 00
 
-, [
-""" ++ [28040; 24687]%N ++ runes_of_ascii """
-,  ""packet"" ]:	string_  ,
-	}  ,
-}
-    options  // @lengthOf(
-
-{
-i8i8=
-
-""" ++ [233]%N ++ runes_of_ascii "t" ++ [233]%N ++ runes_of_ascii """
-
-    Foo
-
-    =false
-	// packet A { u8 x, }
-
-  ;
-
-Pad
-=' ' ;}
-")).
-Eval vm_compute in ("<<<M337>>>" ++ check (runes_of_ascii "packet
-    // " ++ [128512]%N ++ runes_of_ascii " emoji
-    Header {	@calculatedFrom( """" ) @calculatedFrom(
-""" ++ [128512]%N ++ runes_of_ascii """ )  @calculatedFrom(
-""it's"" ) tag
-// trailing space 
-//
-{int32 repeatCount
-,f32a //
-@lengthOf(
-    BodyLength ) , calculatedFrom{ i64_
-    len, trueish @lengthOf( body ) `
-` , i64 f32a `u8 x,`, //x
-match  Foo as A { 007
-: options1
-//x
-/// triple
-,  255: charz ,""" ++ [233]%N ++ runes_of_ascii "t" ++ [233]%N ++ runes_of_ascii """ :zchar
-, ""`tick`""	:
-    u8x
-    ,  1 : len },}, } ,
-    repeat leftPad { uint32 packetx	`` , } // c
-, }")).
-Eval vm_compute in ("<<<M105>>>" ++ check (runes_of_ascii "
-MetaData u8x {
-    packetx
-    len `crlf
-line`
-    ,char[
-255
-] calculatedFrom `" ++ [28040; 24687; 31867; 22411]%N ++ runes_of_ascii "` , float64  MetaDataX // `tick` ""quote"" 'q'
-`say ""hi""` ,BodyLength
-// `tick` ""quote"" 'q'
-// trailing space 
-charz
-`crlf
-line`// a // b
+    :  crc
+,  } 
 ,
-}packet lengthOf{
-    //	t
-    @tag( 4294967296 ) uint8x @calculatedFrom(
-    ""\n"" ) `" ++ [28040; 24687; 31867; 22411]%N ++ runes_of_ascii "` ,
-    char calculatedFrom	@calculatedFrom(
-""" ++ [28040; 24687]%N ++ runes_of_ascii """) // " ++ [27880; 37322]%N ++ runes_of_ascii "
-`two words` , }
-")).
-Eval vm_compute in ("<<<M343>>>" ++ check (runes_of_ascii "
-root packet Packet { @calculatedFrom(""packet""
+
+    repeat
+	Packet,
+    repeat
+float
+
+{
+
+u128/// triple
+    @calculatedFrom(  """ ++ [28040; 24687]%N ++ runes_of_ascii """ )`a\`
+,
+    u64
+    Foo
+    `a\`  ,
+	}
+
+,
+
+    @leftPad	(
+    '\x00' )
+
+@tag(
+1
+)  @calculatedFrom(  ""`tick`""	)
+	f64
+lengthOf
+, @rightPad (
+
+'0'
+
 )
-    char[]  Packet
-, match	crc
-as T {255 :A ,
-} ,
+	@leftPad ( ) @lengthOf(
+
+f32a
+	) repeat
+	i64_
+
+    x_y_z
+
+    ,
+
+    @rightPad
+	( '\x00' )  o  @calculatedFrom( 
+"""")
+`doc` , 
+asx {
+
+    // a // b
+	  //x
+      repeat
+    T
+
+chars `two words`
+,  repeat
+char[ 0
+]
+    string_ ,
+
+    }
+
+, 
+repeat 
+char
+
+repeatCount`{ , }`, @rightPad
+(  ) int16 float,
+
+} ")).
+Eval vm_compute in ("<<<M3812>>>" ++ check (runes_of_ascii "options {
+    len = true;
+    asx = 4294967296
+    Packet = """ ++ [28040; 24687]%N ++ runes_of_ascii """;
+    o = ' '
+    MetaDataX = true
+}
+
+// packet A { u8 x, }
+root packet body {
+    Packet {
+        repeat Logon T `u8 x,`,
+        repeat char[00] metadata,
+    },
+    @lengthOf(i64_)
+    repeat char[] tag,
+    @tag(7)
+    f64 calculatedFrom,// trailing space 
+    T x `crlf
+    line`,
+    float32 BodyLength @lengthOf(falsey) `two words`,
+    @lengthOf(u)
+    repeat char[] body,// 50% %s
+    @calculatedFrom(""a\""b"")
+    match u128 as Pad {
+        // trailing space 
+        ""\" ++ [233]%N ++ runes_of_ascii """ : float,
+        [7] : Packet,
+        // " ++ [27880; 37322]%N ++ runes_of_ascii "
+        // " ++ [128512]%N ++ runes_of_ascii " emoji
+        10 : i8i8,
+    },
+}
+
+MetaData packetx {
+    // a // b
+    matchKey i64_ `line1
+    line2`,
+    char[7] Foo `a\`,
+    float32 Packet `a\`,
+    float32 i8i8 `it's`,
+    asx i8i8,
+}")).
+Eval vm_compute in ("<<<M274>>>" ++ check (runes_of_ascii "packet
+    // c
+    Foo // c
+{	match // 50% %s
+float
+as leftPad { // " ++ [128512]%N ++ runes_of_ascii " emoji
+[00, ""`tick`""
+    ] : leftPad
+// a // b
 /// triple
+,
+0
+//
+// 50% %s
+:chars
+,007 : Logon[ 3 ] : body
+//	t
+//
+,
+    [ 10] : T
+    // " ++ [27880; 37322]%N ++ runes_of_ascii "
+    ,""a	b"" : Z9_,
+    // trailing space 
+    } , @lengthOf(
+zchar ) i32 trueish
+    @lengthOf( a1  )
+`it's` , @rightPad ( ' ' )// a // b
+repeat
+    len {
+match  pack as // packet A { u8 x, }
+falsey
+{ ""// no comment"" : //
+packetx ""1""
+    :
+//
+// c
+o , [ 00 ,
+""{,}"" ] //	t
+: T
+// " ++ [128512]%N ++ runes_of_ascii " emoji
 // `tick` ""quote"" 'q'
-repeat x_y_z , x_y_z@calculatedFrom( ""`tick`"" )`a\` ,
+007 :
+    // `tick` ""quote"" 'q'
+    _x}
+,	} , match options1 as rootA	{ ""a	b"" : MetaDataX ,007: calculatedFrom
+    ,
 // c
 //x
-@calculatedFrom( // a // b
-""" ++ [28040; 24687]%N ++ runes_of_ascii """ ) @lengthOf(Foo
-    )match MetaDataX as T
-    { 0 : repeatCount , } , } MetaData string_
-{ u64 x_y_z,	}packet u // " ++ [27880; 37322]%N ++ runes_of_ascii "
-{
+""" ++ [233]%N ++ runes_of_ascii "t" ++ [233]%N ++ runes_of_ascii """ ://
+lengthOf  1
+:
+A , ""a\\"" :
+    packetx
+, [
+    ""it's"" ] : body ,
     }
-")).
-Eval vm_compute in ("<<<M141>>>" ++ check (runes_of_ascii "packet u  { @calculatedFrom( ""CRC32"" ) repeat zchar[ 1] x_y_z`crlf
-line` ,
-@leftPad
-    ( // `tick` ""quote"" 'q'
-)
-zchar[ // `tick` ""quote"" 'q'
-255
-]crc// c
-, } root
-    packet MetaDataX{@tag( 255 )
-rootA//x
-, }packet f32a {@lengthOf( packetx	) uint8 Z9_ @calculatedFrom(
-""CRC32"" )
-    /// triple
     ,
-    }
+} packet
+Header {
+}
 ")).
-Eval vm_compute in ("<<<M224>>>" ++ check (runes_of_ascii "packet MetaDataX {	int64 x_y_z //
-@calculatedFrom( ""// no comment""
+Eval vm_compute in ("<<<M1034>>>" ++ check (runes_of_ascii "
+options { calculatedFrom
+= ""a	b"" ;
+    lengthOf = ""packet""	; // 50% %s
+Header= zchar[
+7 ]  ; } packet
+    /// triple
+    Logon { @calculatedFrom(
+""" ++ [28040; 24687]%N ++ runes_of_ascii """ ) i16// " ++ [128512]%N ++ runes_of_ascii " emoji
+charz,
+}
+packet asx {  Packet @lengthOf( tag  )`crlf
+line` , @calculatedFrom( """ ++ [128512]%N ++ runes_of_ascii """
+    ) char[ 7 ] i8i8@calculatedFrom( ""\n"" ) `line1
+line2`
+, i32
+// c
+// @lengthOf(
+pack
+    @lengthOf(
+// c
 // packet A { u8 x, }
+f32a
 // `tick` ""quote"" 'q'
-)
-, }	MetaData int { u16 // packet A { u8 x, }
-roots , zchar[ 7 // " ++ [27880; 37322]%N ++ runes_of_ascii "
-]u8x ,  int16 //x
-Logon, } MetaData i64_ // a // b
-{// c
-zchar[ 1 ] // `tick` ""quote"" 'q'
-crc	, }
-
-")).
-Eval vm_compute in ("<<<M316>>>" ++ check (runes_of_ascii "packet  crc {calculatedFrom
-    {string_ u
-,
-rootA
-    calculatedFrom , } // packet A { u8 x, }
-,
-    @lengthOf( len
-    )match //x
-roots
-    /// triple
-    as x{""// no comment""
-:
-    msg_type
-    ,
-7 : calculatedFrom ,} ,} packet zchar
-{
-    }
-
-")).
-Eval vm_compute in ("<<<M397>>>" ++ check (runes_of_ascii "options
-{
-matchKey matchKey = 42/// triple
-x='0' ;
-// packet A { u8 x, }
-//
-charz
-=
-// packet A { u8 x, }
+//	t
+)	`two words` /// triple
+, falsey f32a
+    `tab	here` ,	@tag(3
+) u16 lengthOf ,
 // trailing space 
-true  ; } MetaData BodyLength
-{
-uint8
-pack,zchar[ 1]float ,  float32 x_y_z `` ,u32
-_x,i16 body  , }
-")).
-Eval vm_compute in ("<<<M509>>>" ++ check (runes_of_ascii "options
-{
-matchKey = 42/// triple
-x='0' ;
-// packet A { u8 x, }
-//
-charz
-=
-// packet A { u8 x, }
-// trailing space 
-true  ; } MetaData BodyLength
-{
-uint8
-pack,zchar[ 1]float zchar  float32 x_y_z `` ,u32
-_x,i16 body  , }
-")).
-Eval vm_compute in ("<<<M557>>>" ++ check (runes_of_ascii "options
-{
-matchKey = 42/// triple
-x='0' ;
-// packet A { u8 x, }
-//
-charz
-=
-// packet A { u8 x, }
-// trailing space 
-true  ; } MetaData BodyLength
-{
-uint8
-pack,zchar[ 1]float ,  float32 x_y_z `` ,u32
-_x,i16 body  , , }
-")).
-Eval vm_compute in ("<<<M418>>>" ++ check (runes_of_ascii "options
-{
-matchKey = 42/// triple
-x'0'= ;
-// packet A { u8 x, }
-//
-charz
-=
-// packet A { u8 x, }
-// trailing space 
-true  ; } MetaData BodyLength
-{
-uint8
-pack,zchar[ 1]float ,  float32 x_y_z `` ,u32
-_x,i16 body  , }
-")).
-Eval vm_compute in ("<<<M401>>>" ++ check (runes_of_ascii "options
-{
-matchKey  42/// triple
-x='0' ;
-// packet A { u8 x, }
-//
-charz
-=
-// packet A { u8 x, }
-// trailing space 
-true  ; } MetaData BodyLength
-{
-uint8
-pack,zchar[ 1]float ,  float32 x_y_z `` ,u32
-_x,i16 body  , }
-")).
-Eval vm_compute in ("<<<M476>>>" ++ check (runes_of_ascii "options
-{
-matchKey = 42/// triple
-x='0' ;
-// packet A { u8 x, }
-//
-charz
-=
-// packet A { u8 x, }
-// trailing space 
-true  ; } MetaData BodyLength
-{
-uint8
-,zchar[ 1]float ,  float32 x_y_z `` ,u32
-_x,i16 body  , }
-")).
-Eval vm_compute in ("<<<M221>>>" ++ check (runes_of_ascii "options{ len = // " ++ [27880; 37322]%N ++ runes_of_ascii "
-true
-    ;
-MetaDataX = zchar[ 00//
-] lengthOf =  '0'; Pad	=""packet""  ; x_y_z
-    // a // b
-    = ""a\""b""; } packet calculatedFrom{
-repeat
-matchKey // packet A { u8 x, }
-Foo
+//x
+Foo @lengthOf( // trailing space 
+uint8x ) //
 ,
-    }
-")).
-Eval vm_compute in ("<<<M1339>>>" ++ check (runes_of_ascii "// top
-packet
-    // c0
-Inner { // c2a
-  // c2b
-u8 a // c4a
-  // c4b
-, } root
-    // c7
-packet // c8a
-  // c8b
-P // c9
-{ // c10
-Inner ref_obj , u8 x
-    // c15
-,
-    // c16
-}
-    // c17
-")).
-Eval vm_compute in ("<<<M712>>>" ++ check (runes_of_ascii "// c
-packet i64_ {	char[] calculatedFrom , `} packet
-trueish  {@calculatedFrom(
-""a\\"" ) o { i32 falsey@lengthOf( uint8x ),
-} , } // `tick` ""quote"" 'q'
-options {// c
-Z9_ = ' '//
-}
-")).
-Eval vm_compute in ("<<<M1384>>>" ++ check (runes_of_ascii "
-packet
-A { u8	a
-	,
-	} packet 
-B 
-{
-u16 b	, } root packet
-P  {
-	u8
-	K1
-
-    ,
-
-u8	K2 , match K1  as
-M1
-{1
-    :A
-, 
-} ,	match K2 
-as
-
-    M2	{
-1	:
-
-    B,
-	}
-    , 
-} ")).
-Eval vm_compute in ("<<<M1649>>>" ++ check (runes_of_ascii "  packet u128{
-u8 
-a 
-,
-
-    } root packet  Msg  {
-
-u8
-	k ,u24{ u8
-Hi
-,	u16 Lo
-,
-},
-
-repeat
-i24 { 
-u32
-q
-    , }
-	,
-u128
-
-, u16 
-float32x
-
-    ,
-string s  ,}
-")).
-Eval vm_compute in ("<<<M1388>>>" ++ check (runes_of_ascii "packet A {
-    u8 a,
-}
-packet B {
-    u16 b,
-}
-root packet P {
-    u8 K,
-    match K as M {
-        [1, 2] : A,
-        3 : B,
-        7 : A,
-    },
-}
-")).
-Eval vm_compute in ("<<<M1355>>>" ++ check (runes_of_ascii "
-packet
-B{
-    u8  a
-
-    ,} root
-    packet
-
-P {  u8
-K ,
-
-    match  K
-    as
-Body {
-
-    1
-:
-B,}
-, 
-u16
-	L @lengthOf( 
-Body ) ,
-} ")).
-Eval vm_compute in ("<<<M1667>>>" ++ check (runes_of_ascii "packet
-	A{
-
-    match  k 
-as
-n  {
-
-[  1, 22
-,  ""c c"" , 
-4
-,  5
-
-,  ""f"" ,	7
-, 8
-
-,
-    ""i"" ,10 ,
-    11
-    ]
-
-:
-B
-    2:
-	C	}	, }")).
-Eval vm_compute in ("<<<M1993>>>" ++ check (runes_of_ascii "packet A {
-    u16 len @lengthOf(body) `a
-    
-    b`,
-    u32 crc @calculatedFrom(""CRC32"") `a
-    
-    b`,
-    string body,
-}")).
-Eval vm_compute in ("<<<M1337>>>" ++ check (runes_of_ascii "
-options
-
-    { LittleEndian
-
-=	true
-
-    ; } root packet 
-P 
-{ 
-repeat char
-	cs
-    ,
-
-    u8
-
-    x ,
-    }
-
-")).
-Eval vm_compute in ("<<<M1554>>>" ++ check (runes_of_ascii "packet Logon {
-    @tag(42)
-    // c
-    @rightPad(' ')
-    @leftPad()
-    repeat trueish {
-        string T,
-    },
-}")).
-Eval vm_compute in ("<<<M1374>>>" ++ check (runes_of_ascii "// top
+    @lengthOf(
+chars ) zchar@lengthOf(stringy )
+    `crlf
+line` ,asx , /// triple
+zchar[ 65535 ]
+    Z9_ // trailing space 
+@calculatedFrom( ""1"") , }")).
+Eval vm_compute in ("<<<M1381>>>" ++ check (runes_of_ascii "
 root
-    // c0
-packet // c1a
-  // c1b
-P // c2a
-  // c2b
-{ // c3a
-  // c3b
-string // c4
-s , // c6
-}
-    // c7
+packet int  { }packet Header // packet A { u8 x, }
+{ @calculatedFrom(""""
+    )
+    @calculatedFrom(
+    ""1""
+    ) @calculatedFrom(
+    ""\" ++ [233]%N ++ runes_of_ascii """ ) //	t
+rootA`crlf
+line`
+,
+    }
+    packet leftPad { u32 o
+@calculatedFrom( ""packet"" ) `{ , }`
+,body@lengthOf( roots) , i64
+Header`tab	here` , string
+    x_y_z // trailing space 
+`say ""hi""` // packet A { u8 x, }
+,
+    zchar[0
+]
+    a1 `say ""hi""` // @lengthOf(
+, uint8 T , @calculatedFrom( ""abc""  ) A @lengthOf( matchKey
+    ) ``
+// @lengthOf(
+// " ++ [27880; 37322]%N ++ runes_of_ascii "
+,@calculatedFrom(
+    ""1"") repeat u32
+    falsey
+// packet A { u8 x, }
+// " ++ [27880; 37322]%N ++ runes_of_ascii "
+,	@lengthOf(
+    BodyLength
+    )// `tick` ""quote"" 'q'
+repeat uint16 chars`tab	here`
+,
+} MetaData body{ }
 ")).
-Eval vm_compute in ("<<<M892>>>" ++ check (runes_of_ascii "packet A {
-  match k as n {
-    [""a"", ""bb"", ""c c"", ""d"", ""e"", ""f"", ""g"", ""h"", ""i"", ""j"", ""k""] : B,
-    2 : C
-  },
-}")).
-Eval vm_compute in ("<<<M918>>>" ++ check (runes_of_ascii "packet A {
-    u16 len @lengthOf(body) `a
-b`,
-    u32 crc @calculatedFrom(""CRC32"") `a
-b`,
-    string body,
-}")).
-Eval vm_compute in ("<<<M1926>>>" ++ check (runes_of_ascii "packet o {
-    @tag(42)
-    repeat x {
-        char[0123456789] i64_,
-        // c
+Eval vm_compute in ("<<<M211>>>" ++ check (runes_of_ascii "root packet
+    asx
+    {@lengthOf( metadata/// triple
+)@tag(
+0
+) @calculatedFrom( """") msg_type `u8 x,` // " ++ [128512]%N ++ runes_of_ascii " emoji
+,
+@leftPad
+// 50% %s
+//	t
+( ' '
+    )  repeat string
+    //	t
+    chars `say ""hi""` , repeat pack { repeat  o { repeat string_
+{ //	t
+match
+chars // trailing space 
+as
+// 50% %s
+//
+x
+{ ""it's"":
+    roots , ""packet"" :stringy ,	[ ""abc""
+]:As , [""`tick`"" ] : u128
+, 0 // trailing space 
+:	f32a, } ,
+repeat Foo
+roots
+, trueish `" ++ [233]%N ++ runes_of_ascii "`
+/// triple
+// a // b
+, a1 @lengthOf(f32a
+) , }
+, }
+,As@lengthOf( chars
+) ,
+    }  , body { int32 u`u8 x,`,
+zchar[10 ] falsey
+    `doc`
+,
+repeat // " ++ [128512]%N ++ runes_of_ascii " emoji
+Logon  `tab	here` , uint32
+// c
+// @lengthOf(
+u8x , } , }")).
+Eval vm_compute in ("<<<M3509>>>" ++ check (runes_of_ascii "// top
+packet // c0a
+  // c0b
+MDSnapshotZZ { // c2
+u8 // c3
+a // c4
+, // c5
+} packet // c7
+OrderACK {
+    // c9
+u16 b // c11a
+  // c11b
+, // c12a
+  // c12b
+}
+    // c13
+packet // c14a
+  // c14b
+HTTPServerInfo
+    // c15
+{ // c16
+string s // c18
+, // c19a
+  // c19b
+} // c20
+root packet FIXMsg
+    // c23
+{ u8 // c25
+KType // c26a
+  // c26b
+, MDSnapshotZZ // c28
+, // c29a
+  // c29b
+repeat // c30
+OrderACK // c31
+, // c32
+match // c33
+KType // c34
+as Body
+    // c36
+{ // c37a
+  // c37b
+1
+    // c38
+: // c39
+HTTPServerInfo // c40a
+  // c40b
+, // c41
+2
+    // c42
+:
+    // c43
+OrderACK // c44a
+  // c44b
+, }
+    // c46
+, } // c48
+")).
+Eval vm_compute in ("<<<M835>>>" ++ check (runes_of_ascii "packet Header { @rightPad( '0' ) @calculatedFrom(// trailing space 
+""1"" // c
+)@lengthOf(	uint8x ) charz
+charz`tab	here`, @rightPad
+// trailing space 
+// trailing space 
+( ) roots /// triple
+, @rightPad ('\x00')	f32a o`{ , }` ,
+int32 Foo @calculatedFrom( ""a\\"" ) `doc`
+    ,
+@calculatedFrom(""" ++ [233]%N ++ runes_of_ascii "t" ++ [233]%N ++ runes_of_ascii """	)
+// a // b
+//
+string a1 ,	@rightPad
+(
+    )	match string_ as x_y_z {
+    1 :msg_type
+    , }, @lengthOf( options1 )  match pack as metadata { 7 :body
+,
+1  : i64_
+,
+    },  string
+metadata
+, repeat // " ++ [27880; 37322]%N ++ runes_of_ascii "
+i32 matchKey
+    , @rightPad( // `tick` ""quote"" 'q'
+' ' ) string Logon `100% of %d`
+    , } //x")).
+Eval vm_compute in ("<<<M1353>>>" ++ check (runes_of_ascii "
+MetaData stringy { T As `crlf
+line` ,  i16 Packet, }packet  Foo {	@lengthOf(MetaDataX ) msg_type  ,  @tag( 1)packetx Packet
+    ,
+// @lengthOf(
+// `tick` ""quote"" 'q'
+@tag(	007 ) // a // b
+i64	body
+@calculatedFrom(""" ++ [128512]%N ++ runes_of_ascii """ ) ,@tag( 1
+) match zchar as leftPad {
+    ""{,}""
+// c
+// a // b
+: msg_type[ 4294967296
+    ,
+1, ""`tick`"", 3
+    ]:	body	,""packet""	:  u128 }, @tag( 1 )
+    crc , //
+x_y_z , @rightPad
+    ()a1 @calculatedFrom( ""// no comment"" ) `doc`, @leftPad(
+//
+//
+'\x00')  string BodyLength , @tag(
+255 )// @lengthOf(
+uint8 // @lengthOf(
+options1, i64 lengthOf , }
+")).
+Eval vm_compute in ("<<<M4035>>>" ++ check (runes_of_ascii "packet o {
+    /// triple
+    // " ++ [27880; 37322]%N ++ runes_of_ascii "
+    metadata crc,
+    @tag(3)
+    @calculatedFrom(""it's"")
+    @tag(7)
+    repeat uint64 MetaDataX,
+    i16 u8x `100% of %d`,
+    zchar[00] A,
+    Pad As,
+}
+
+root packet T {
+}
+
+packet o {
+    repeat len {
+        Z9_,
+        // a // b
     },
+    repeat chars {
+        repeat zchar[65535] int,
+        char[0] x @lengthOf(repeatCount),
+        body,
+    },/// triple
+    string matchKey `" ++ [233]%N ++ runes_of_ascii "`,
+    Header @calculatedFrom(""" ++ [233]%N ++ runes_of_ascii "t" ++ [233]%N ++ runes_of_ascii """),
+    @tag(0123456789)
+    @tag(255)
+    char len,// " ++ [128512]%N ++ runes_of_ascii " emoji
+    body matchKey `u8 x,`,
+}")).
+Eval vm_compute in ("<<<M1097>>>" ++ check (runes_of_ascii "packet options1 // " ++ [27880; 37322]%N ++ runes_of_ascii "
+{
+repeat i64_ charz , repeat charz
+    // packet A { u8 x, }
+    u8x
+    //
+    , repeat float32 // c
+uint8x , _x
+{ metadata @calculatedFrom( ""CRC32"" )
+    // trailing space 
+    `crlf
+line`, char[ 1 ]repeatCount@lengthOf(
+// packet A { u8 x, }
+// packet A { u8 x, }
+i64_
+    ),
+} ,
+    char[] string_`doc` ,
+    int16 o  @calculatedFrom( ""a\\"" ) , @leftPad
+()
+    u32
+roots @lengthOf(
+    matchKey
+    ) `{ , }` , stringy ,int16	pack
+    `` ,
+zchar[  255 ]
+    a1 // a // b
+@calculatedFrom(""a\""b"")
+    , }
+")).
+Eval vm_compute in ("<<<M668>>>" ++ check (runes_of_ascii "packet
+//	t
+// a // b
+Z9_  {
+// 50% %s
+// @lengthOf(
+@leftPad( ' ' ) o `a\` ,	@lengthOf(charz ) // " ++ [128512]%N ++ runes_of_ascii " emoji
+repeat
+    int64 rootA , repeat float64 A `{ , }` , repeat zchar[ 7 ] options1 , Foo
+    //	t
+    , @lengthOf( int ) i16
+    As ,}
+root	packet A {
+} MetaData packetx
+    { u32
+f32a	,zchar[
+42
+    ]
+    // packet A { u8 x, }
+    roots,
+    chars matchKey	`tab	here`  ,
+chars zchar `100% of %d`
+    ,
+chars
+charz
+    // packet A { u8 x, }
+    , }root packet leftPad
+// 50% %s
+//
+{ } options{ u8x =	65535 ; }")).
+Eval vm_compute in ("<<<M4310>>>" ++ check (runes_of_ascii "root packet msg_type {
+    Header {
+        match body as msg_type {
+            [3, 7] : x,
+        },
+        match lengthOf as stringy {
+            10 : calculatedFrom,
+        },
+        match Foo as rootA {
+            [0123456789] : zchar,
+        },
+    },
+    @calculatedFrom(""abc"")
+    match pack as leftPad {
+        [007, 10] : pack,
+        ""CRC32"" : Foo,
+        ""it's"" : Packet,
+        00 : Z9_,
+    },
+    repeat u8 crc `crlf
+    line`,
 }
 
 options {
+    falsey = ' '
 }")).
-Eval vm_compute in ("<<<M1279>>>" ++ check (runes_of_ascii "packet calculatedFrom { @tag( 4294967296 ) u msg_type , char[ 3 ] crc @lengthOf( // c
-len ) `u8 x,` , }")).
-Eval vm_compute in ("<<<M626>>>" ++ check (runes_of_ascii "MetaData
-    // trailing space 
-    matchKey
-{ u64 chars // a // b
-,char[] lengthOf 
-    , //	t
-}")).
-Eval vm_compute in ("<<<M6>>>" ++ check (runes_of_ascii "MetaData metadata{
-leftPad i64_ ,
-    // " ++ [128512]%N ++ runes_of_ascii " emoji
-    u8
-    stringy `
-` , char[] trueish , }
+Eval vm_compute in ("<<<M3635>>>" ++ check (runes_of_ascii "root packet metadata
+	{
+
+    char[007
+
+    ] _x`a\`  ,
+	match
+
+// " ++ [128512]%N ++ runes_of_ascii " emoji
+
+/// triple
+	_x as Packet
+{ [  // a // b
+    4294967296
+
+    ,
+
+""a\""b"" , ""{,}"" ,
+0	,
+    """" , 65535  // trailing space 
+
+]
+
+    :
+
+options1
+
+    ,
+    [
+	""abc""] 
+:  options1 ,	[
+        // trailing space 
+
+""it's"" 
+,""" ++ [233]%N ++ runes_of_ascii "t" ++ [233]%N ++ runes_of_ascii """
+
+    , 
+""" ++ [233]%N ++ runes_of_ascii "t" ++ [233]%N ++ runes_of_ascii """ 
+,
+""a\\""]	// a // b
+  :len  , } 
+,
+    uint8 
+Z9_,
+
+As @calculatedFrom(
+	""""
+
+    )
+
+`" ++ [28040; 24687; 31867; 22411]%N ++ runes_of_ascii "` , // @lengthOf(
+    i64  As
+
+`" ++ [233]%N ++ runes_of_ascii "`	,
+
+    }
 ")).
-Eval vm_compute in ("<<<M1157>>>" ++ check (runes_of_ascii "packet Logon { @tag( 42 ) @rightPad ( ' ' ) @leftPad ( ) repeat
-// c
-trueish { string T , } , }")).
-Eval vm_compute in ("<<<M840>>>" ++ check (runes_of_ascii "packet A {
-  match k as n {
-    [""a"", ""bb"", ""c c"", ""d"", ""e"", ""f"", ""g""] : B,
-    2 : C
-  },
+Eval vm_compute in ("<<<M4457>>>" ++ check (runes_of_ascii "packet 
+
+    // packet A { u8 x, }
+
+/// triple
+  	u
+{
+	repeat 
+Z9_  u // @lengthOf(
+	, match
+roots
+	as
+
+    A{""\n"" : i64_// 50% %s
+	,	}
+
+    ,
+A @calculatedFrom(
+""packet"" ) // " ++ [128512]%N ++ runes_of_ascii " emoji
+
+, u64
+	tag
+
+@lengthOf(
+	A )
+
+    `100% of %d` ,
+    @lengthOf( 
+Pad	)@rightPad (
+)
+
+@lengthOf(
+pack
+	) match o
+	    //	t
+as uint8x {
+4294967296  :o
+    ,
+    00
+	:
+A	,
+	}, @rightPad
+(
+
+'\x00'	)  char[
+0123456789 ]
+
+msg_type	,  }
+    /// triple")).
+Eval vm_compute in ("<<<M3899>>>" ++ check (runes_of_ascii "packet u8x {
+    leftPad,
+    repeat MetaDataX `{ , }`,
+    lengthOf @calculatedFrom(""" ++ [128512]%N ++ runes_of_ascii """),
+    @calculatedFrom(""a	b"")
+    @lengthOf(uint8x)
+    uint16 Packet,
+    match i64_ as asx {
+        ""a\""b"" : len,
+    },
+    @rightPad(' ')
+    uint64 stringy @lengthOf(a1),// " ++ [27880; 37322]%N ++ runes_of_ascii "
+    @leftPad()
+    u8 stringy,
+    repeat f64 uint8x `line1
+    line2`,
+    BodyLength,
+    @calculatedFrom(""// no comment"")
+    i64_ string_ `100% of %d`,
 }")).
-Eval vm_compute in ("<<<M1938>>>" ++ check (runes_of_ascii "packet A {
+Eval vm_compute in ("<<<M1397>>>" ++ check (runes_of_ascii "MetaData  BodyLength { i8	tag `two words` , options1 o , int Foo `doc`, packetx
+metadata ,
+    Pad
+roots ,int8 int
+    `line1
+line2`, }root packet metadata {// " ++ [128512]%N ++ runes_of_ascii " emoji
+float @lengthOf(  matchKey )  , i16	Header `100% of %d`,
+    match  leftPad
+    as u { ""\n"" : x
+    , } , }MetaData a1{ _x uint8x  ,
+    uint64
+chars `
+`,Z9_ falsey	`doc` , leftPad As
+,
+    As//x
+f32a
+`say ""hi""` // 50% %s
+, Packet trueish ,}
+")).
+Eval vm_compute in ("<<<M856>>>" ++ check (runes_of_ascii "root packet charz
+{ repeat o
+    //
+    Packet, }
+packet
+    float {match
+    crc
+// @lengthOf(
+//	t
+as  body {// packet A { u8 x, }
+""\" ++ [233]%N ++ runes_of_ascii """
+// 50% %s
+//
+: f32a	4294967296
+//	t
+// a // b
+: len[ ""// no comment"" //
+]:lengthOf , 65535 : i64_
+,4294967296 : Pad , }, Logon,//	t
+float64 body @lengthOf(leftPad) `a\` , }
+packet MetaDataX{
+zchar[ 65535 ] zchar, MetaDataX @lengthOf( falsey ) , // " ++ [128512]%N ++ runes_of_ascii " emoji
+}")).
+Eval vm_compute in ("<<<M3541>>>" ++ check (runes_of_ascii "options	{ StringPrefixLenType
+
+    =
+u32	;FixedStringPadFromLeft  =
+false ;
+
+    } 
+packet
+
+    Logout
+
+    {f64
+	Flags,
+repeat InTail1
+	{ int32 Flags , zchar[ 1 ]tag7
+,
+
+    } ,
+repeat
+
+    string
+
+    x
+	,  }
+
+root
+    packet 
+Trade {repeat
+f32	Acct 
+,
+
+InTail62
+
+    {
+
+    u32 Qty ,	zchar[
+
+    1
+    ]x
+
+,
+	}
+    ,	repeat string
+	Side2,u16 Ref
+
+,  }")).
+Eval vm_compute in ("<<<M4498>>>" ++ check (runes_of_ascii "packet leftPad {
+    stringy @calculatedFrom(""\" ++ [233]%N ++ runes_of_ascii """) `say ""hi""`,
+    @rightPad('0')
+    @tag(4294967296)
+    lengthOf @calculatedFrom(""a	b""),
+    // packet A { u8 x, }
+    //	t
+    repeat i32 trueish `line1
+    line2`,
+    // `tick` ""quote"" 'q'
+}// " ++ [27880; 37322]%N ++ runes_of_ascii "
+
+packet zchar {
+    repeat string x,
+}
+
+options {
+    u8x = 0;
+    A = ""x y""
+    roots = char;
+    packetx = false;
+}")).
+Eval vm_compute in ("<<<M1337>>>" ++ check (runes_of_ascii "root// c
+packet
+Z9_
+{ matchKey{ char[// 50% %s
+007 ] A// 50% %s
+@calculatedFrom( ""{,}"" ) , }
+    , // 50% %s
+@lengthOf( tag ) roots
+    As ,char[] falsey
+`say ""hi""`
+,@lengthOf( uint8x
+) _x
+@calculatedFrom(""" ++ [233]%N ++ runes_of_ascii "t" ++ [233]%N ++ runes_of_ascii """  )
+,//x
+}
+root packet A
+    {@lengthOf( u128)
+    char[007
+    ] int
+@calculatedFrom( """ ++ [28040; 24687]%N ++ runes_of_ascii """ ) ,
+// c
+//x
+} packet Foo
+    { repeat string_ , }")).
+Eval vm_compute in ("<<<M416>>>" ++ check (runes_of_ascii "// c
+options
+{ chars	= u8
+; falsey =
+zchar[ // " ++ [128512]%N ++ runes_of_ascii " emoji
+0 ] }
+    options {
+i64_ =// " ++ [27880; 37322]%N ++ runes_of_ascii "
+' '
+    Header
+    = 0123456789 ; Logon = """ ++ [233]%N ++ runes_of_ascii "t" ++ [233]%N ++ runes_of_ascii """
+    asx
+= i32 // `tick` ""quote"" 'q'
+}  packet options1 {
+    char[] x_y_z
+@lengthOf( o ), repeat //
+x_y_z tag , @rightPad ( )char[4294967296
+] Pad
+@lengthOf( Header
+    )`
+` ,
+    // " ++ [128512]%N ++ runes_of_ascii " emoji
+    }")).
+Eval vm_compute in ("<<<M458>>>" ++ check (runes_of_ascii "packet trueish {x metadata , uint16
+f32a // trailing space 
+, repeat leftPad { match MetaDataX as
+    lengthOf {4294967296
+: calculatedFrom
+,
+[""a\\""
+, ""a\\"" ] : len  , 0
+:
+    // `tick` ""quote"" 'q'
+    f32a , [ ""CRC32""
+    ] :
+chars ,
+// @lengthOf(
+// " ++ [128512]%N ++ runes_of_ascii " emoji
+65535  : /// triple
+i8i8 , }, } // packet A { u8 x, }
+,
+    }")).
+Eval vm_compute in ("<<<M3712>>>" ++ check (runes_of_ascii "
+
+  //x
+    packet// c
+    zchar	{ 
+    // " ++ [128512]%N ++ runes_of_ascii " emoji
+  // `tick` ""quote"" 'q'
+    string _x
+    ,	@lengthOf(string_
+	)  a1
+,char[] 
+    // packet A { u8 x, }
+	// packet A { u8 x, }
+  	leftPad`` ,  } packet 
+charz
+
+    {
+
+    @leftPad
+(
+
+    )	falsey
+    //	t
+    // packet A { u8 x, }
+		`two words`	,  }")).
+Eval vm_compute in ("<<<M260>>>" ++ check (runes_of_ascii "root
+packet // packet A { u8 x, }
+roots	{ repeat uint8x {uint32 int `tab	here` ,match zchar as calculatedFrom  { [ 007 , 0 ,
+    7
+,
+    ""a\""b"" ,
+0123456789
+, """ ++ [233]%N ++ runes_of_ascii "t" ++ [233]%N ++ runes_of_ascii """ //
+, 4294967296  , ""1""// " ++ [128512]%N ++ runes_of_ascii " emoji
+] :o , } , }, char uint8x `{ , }` , }packet rootA {
+@lengthOf( o) char _x ,// " ++ [27880; 37322]%N ++ runes_of_ascii "
+u64
+i8i8
+`
+`
+,}
+")).
+Eval vm_compute in ("<<<M4278>>>" ++ check (runes_of_ascii "packet packetx {
+    // trailing space 
+    x_y_z {
+        string charz,
+        string x `two words`,
+        u8x {
+            // `tick` ""quote"" 'q'
+            charz `100% of %d`,
+        },
+    },
+}
+
+// a // b
+packet metadata {
+    @leftPad('0')
+    repeat options1,
+    u64 uint8x,
+}")).
+Eval vm_compute in ("<<<M171>>>" ++ check (runes_of_ascii "options{
+MetaDataX= zchar[0123456789 ] ; } MetaData
+    len { zchar[ 1] lengthOf// @lengthOf(
+, f32 rootA
+    , float64 calculatedFrom
+`crlf
+line` ,
+    // " ++ [128512]%N ++ runes_of_ascii " emoji
+    string_ falsey ,
+x_y_z int `it's` , } packet roots
+{// packet A { u8 x, }
+@calculatedFrom(	""a\""b"" ) char Pad , }
+")).
+Eval vm_compute in ("<<<M1892>>>" ++ check (runes_of_ascii "packet	packetx { // trailing space 
+x_y_z
+{
+string
+charz ,
+string x x// @lengthOf(
+`two words`
+    ,  u8x { // `tick` ""quote"" 'q'
+charz `100% of %d` // packet A { u8 x, }
+,}// " ++ [27880; 37322]%N ++ runes_of_ascii "
+,} , }
+    // a // b
+    packet metadata {  @leftPad ( '0') repeat i32 options1 ,u64 uint8x , }
+")).
+Eval vm_compute in ("<<<M1858>>>" ++ check (runes_of_ascii "packet	packetx x_y_z // trailing space 
+{
+{
+string
+charz ,
+string x// @lengthOf(
+`two words`
+    ,  u8x { // `tick` ""quote"" 'q'
+charz `100% of %d` // packet A { u8 x, }
+,}// " ++ [27880; 37322]%N ++ runes_of_ascii "
+,} , }
+    // a // b
+    packet metadata {  @leftPad ( '0') repeat i32 options1 ,u64 uint8x , }
+")).
+Eval vm_compute in ("<<<M1994>>>" ++ check (runes_of_ascii "packet	packetx { // trailing space 
+x_y_z
+{
+string
+charz ,
+string x// @lengthOf(
+`two words`
+    ,  u8x { // `tick` ""quote"" 'q'
+charz `100% of %d` // packet A { u8 x, }
+,}// " ++ [27880; 37322]%N ++ runes_of_ascii "
+,} , }
+    // a // b
+    packet metadata {  @leftPad ( '0') uint16 i32 options1 ,u64 uint8x , }
+")).
+Eval vm_compute in ("<<<M1879>>>" ++ check (runes_of_ascii "packet	packetx { // trailing space 
+x_y_z
+{
+string
+i32 ,
+string x// @lengthOf(
+`two words`
+    ,  u8x { // `tick` ""quote"" 'q'
+charz `100% of %d` // packet A { u8 x, }
+,}// " ++ [27880; 37322]%N ++ runes_of_ascii "
+,} , }
+    // a // b
+    packet metadata {  @leftPad ( '0') repeat i32 options1 ,u64 uint8x , }
+")).
+Eval vm_compute in ("<<<M2025>>>" ++ check (runes_of_ascii "packet	packetx { // trailing space 
+x_y_z
+{
+string
+charz ,
+string x// @lengthOf(
+`two words`
+    ,  u8x { // `tick` ""quote"" 'q'
+charz `100% of %d` // packet A { u8 x, }
+,}// " ++ [27880; 37322]%N ++ runes_of_ascii "
+,} , }
+    // a // b
+    packet metadata {  @leftPad ( '0') repeat i32 options1 ,u64 uint8x")).
+Eval vm_compute in ("<<<M4093>>>" ++ check (runes_of_ascii "options {
+    pack = true
+}//	t
+
+packet lengthOf {
+    int8 u `" ++ [28040; 24687; 31867; 22411]%N ++ runes_of_ascii "`,
+    u @lengthOf(stringy),
+    @lengthOf(roots)
+    @leftPad('\x00')
+    @calculatedFrom(""a\\"")
+    repeat uint16 A `{ , }`,
+}
+
+packet u {
+    // c
+    uint32 pack @lengthOf(Pad) ``,
+    lengthOf u,
+}")).
+Eval vm_compute in ("<<<M532>>>" ++ check (runes_of_ascii "
+root packet zchar
+    {
+@leftPad
+    ( '0')
+string
+i64_ `line1
+line2` , char[]roots	`u8 x,`
+,
+// " ++ [27880; 37322]%N ++ runes_of_ascii "
+// packet A { u8 x, }
+u64 i64_ , leftPad// " ++ [27880; 37322]%N ++ runes_of_ascii "
+@calculatedFrom(
+    //
+    ""\n"" )
+,
+    @tag( 0 )
+repeat u64 crc , string// " ++ [27880; 37322]%N ++ runes_of_ascii "
+u128// 50% %s
+`// not a comment`
+,
+}")).
+Eval vm_compute in ("<<<M2165>>>" ++ check (runes_of_ascii "packet// packet A { u8 x, }
+repeatCount	{// packet A { u8 x, }
+@leftPad ( '\x00'
+) repeat u8x MetaDataX `crlf
+line`,
+    repeat
+    char[] MetaDataX
+    ,
+u64	uint8x@calculatedFrom(""a\""b""
+// c
+// packet A { u8 x, }
+) `tab	here`
+,//
+} }MetaData pack
+    {
+    }
+")).
+Eval vm_compute in ("<<<M2071>>>" ++ check (runes_of_ascii "packet// packet A { u8 x, }
+repeatCount	{// packet A { u8 x, }
+@leftPad '\x00' (
+) repeat u8x MetaDataX `crlf
+line`,
+    repeat
+    char[] MetaDataX
+    ,
+u64	uint8x@calculatedFrom(""a\""b""
+// c
+// packet A { u8 x, }
+) `tab	here`
+,//
+}MetaData pack
+    {
+    }
+")).
+Eval vm_compute in ("<<<M2077>>>" ++ check (runes_of_ascii "packet// packet A { u8 x, }
+repeatCount	{// packet A { u8 x, }
+@leftPad ( uint8
+) repeat u8x MetaDataX `crlf
+line`,
+    repeat
+    char[] MetaDataX
+    ,
+u64	uint8x@calculatedFrom(""a\""b""
+// c
+// packet A { u8 x, }
+) `tab	here`
+,//
+}MetaData pack
+    {
+    }
+")).
+Eval vm_compute in ("<<<M2112>>>" ++ check (runes_of_ascii "packet// packet A { u8 x, }
+repeatCount	{// packet A { u8 x, }
+@leftPad ( '\x00'
+) repeat u8x MetaDataX `crlf
+line`,
+    )
+    char[] MetaDataX
+    ,
+u64	uint8x@calculatedFrom(""a\""b""
+// c
+// packet A { u8 x, }
+) `tab	here`
+,//
+}MetaData pack
+    {
+    }
+")).
+Eval vm_compute in ("<<<M1531>>>" ++ check (runes_of_ascii "packet calculatedFrom
+{ @calculatedFrom( ""a\\"" ) zchar[ 4294967296 ]
+calculatedFrom@lengthOf( pack )	`100% of %d` ,char[]body@calculatedFrom( ""// no comment"" )  ,
+@tag( 007 false //x
+int8
+leftPad`it's` , repeat pack
+    { repeat char[ 3] body
+,},
+}")).
+Eval vm_compute in ("<<<M1439>>>" ++ check (runes_of_ascii "packet calculatedFrom
+{ @calculatedFrom( ""a\\"" ) ) zchar[ 4294967296 ]
+calculatedFrom@lengthOf( pack )	`100% of %d` ,char[]body@calculatedFrom( ""// no comment"" )  ,
+@tag( 007) //x
+int8
+leftPad`it's` , repeat pack
+    { repeat char[ 3] body
+,},
+}")).
+Eval vm_compute in ("<<<M1575>>>" ++ check (runes_of_ascii "packet calculatedFrom
+{ @calculatedFrom( ""a\\"" ) zchar[ 4294967296 ]
+calculatedFrom@lengthOf( pack )	`100% of %d` ,char[]body@calculatedFrom( ""// no comment"" )  ,
+@tag( 007) //x
+int8
+leftPad`it's` , repeat pack
+    { repeat 3 char[ ] body
+,},
+}")).
+Eval vm_compute in ("<<<M1480>>>" ++ check (runes_of_ascii "packet calculatedFrom
+{ @calculatedFrom( ""a\\"" ) zchar[ 4294967296 ]
+calculatedFrom@lengthOf( pack )	, `100% of %d`char[]body@calculatedFrom( ""// no comment"" )  ,
+@tag( 007) //x
+int8
+leftPad`it's` , repeat pack
+    { repeat char[ 3] body
+,},
+}")).
+Eval vm_compute in ("<<<M1453>>>" ++ check (runes_of_ascii "packet calculatedFrom
+{ @calculatedFrom( ""a\\"" ) zchar[ 4294967296 
+calculatedFrom@lengthOf( pack )	`100% of %d` ,char[]body@calculatedFrom( ""// no comment"" )  ,
+@tag( 007) //x
+int8
+leftPad`it's` , repeat pack
+    { repeat char[ 3] body
+,},
+}")).
+Eval vm_compute in ("<<<M1533>>>" ++ check (runes_of_ascii "packet calculatedFrom
+{ @calculatedFrom( ""a\\"" ) zchar[ 4294967296 ]
+calculatedFrom@lengthOf( pack )	`100% of %d` ,char[]body@calculatedFrom( ""// no comment"" )  ,
+@tag( 007) //x
+
+leftPad`it's` , repeat pack
+    { repeat char[ 3] body
+,},
+}")).
+Eval vm_compute in ("<<<M1538>>>" ++ check (runes_of_ascii "packet calculatedFrom
+{ @calculatedFrom( ""a\\"" ) zchar[ 4294967296 ]
+calculatedFrom@lengthOf( pack )	`100% of %d` ,char[]body@calculatedFrom( ""// no comment"" )  ,
+@tag( 007) //x
+int8
+`it's` , repeat pack
+    { repeat char[ 3] body
+,},
+}")).
+Eval vm_compute in ("<<<M1498>>>" ++ check (runes_of_ascii "packet calculatedFrom
+{ @calculatedFrom( ""a\\"" ) zchar[ 4294967296 ]
+calculatedFrom@lengthOf( pack )	`100% of %d` ,char[]body ""// no comment"" )  ,
+@tag( 007) //x
+int8
+leftPad`it's` , repeat pack
+    { repeat char[ 3] body
+,},
+}")).
+Eval vm_compute in ("<<<M1572>>>" ++ check (runes_of_ascii "packet calculatedFrom
+{ @calculatedFrom( ""a\\"" ) zchar[ 4294967296 ]
+calculatedFrom@lengthOf( pack )	`100% of %d` ,char[]body@calculatedFrom( ""// no comment"" )  ,
+@tag( 007) //x
+int8
+leftPad`it's` , repeat pack
+    {")).
+Eval vm_compute in ("<<<M3922>>>" ++ check (runes_of_ascii "packet repeatCount {
+    // packet A { u8 x, }
+    @leftPad('\x00')
+    u8x MetaDataX `crlf
+        line`,
+    repeat char[] MetaDataX,
+    u64 uint8x @calculatedFrom(""a\""b"") `tab	here`,//
+}
+
+MetaData pack {
+}")).
+Eval vm_compute in ("<<<M864>>>" ++ check (runes_of_ascii "// `tick` ""quote"" 'q'
+root packet
+chars { } packet	msg_type
+{ // @lengthOf(
+msg_type @lengthOf( Z9_
+) `tab	here` ,} options { msg_type = 10 ;x_y_z =uint64;
+falsey=
+""1"" len = ""\n""  Z9_
+    = ' ';} 	 ")).
+Eval vm_compute in ("<<<M1396>>>" ++ check (runes_of_ascii "MetaData roots  {char[ 255 ] calculatedFrom
+,
+i32
+Foo	`say ""hi""` , Z9_
+    Logon ,
+// a // b
+//
+float64 msg_type ,zchar[
+    //
+    007
+    // trailing space 
+    ] lengthOf
+`two words` , } 	 ")).
+Eval vm_compute in ("<<<M264>>>" ++ check (runes_of_ascii "MetaData MetaDataX // trailing space 
+{
+tag
+    Pad`{ , }`,
+    zchar[ 255 ]
+    stringy
+    `crlf
+line`,	string packetx `crlf
+line` ,i32 // 50% %s
+o , char[ 1]
+uint8x
+    , //
+}
+")).
+Eval vm_compute in ("<<<M297>>>" ++ check (runes_of_ascii "packet x { char[ 7 ]	u `crlf
+line` ,
+// a // b
+//
+}// a // b
+packet
+    stringy { @lengthOf(
+x_y_z ) match asx as asx  {
+    // " ++ [27880; 37322]%N ++ runes_of_ascii "
+    1 :metadata 10 :// a // b
+roots ,  } ,  }")).
+Eval vm_compute in ("<<<M4221>>>" ++ check (runes_of_ascii "
+options{
+
+As/// triple
+    = """ ++ [28040; 24687]%N ++ runes_of_ascii """
+
+    }
+    options 
+	    // c
+  // c
+	{  o  =
+	' '// c
+  ;
+	i8i8
+
+=
+' ' msg_type
+    =
+uint8
+
+; trueish  = false i64_
+=255
+    ;}
+")).
+Eval vm_compute in ("<<<M3944>>>" ++ check (runes_of_ascii "packet A {
     match k as n {
-        [1, ""bb"", 007, ""d"", 5] : B,
+        [
+            1, ""bb"", 007, ""d"", 5,
+            ""f"", 7, ""h"", 9, ""j"",
+            11, ""l""
+        ] : B,
         2 : C,
     },
 }")).
-Eval vm_compute in ("<<<M671>>>" ++ check (runes_of_ascii "// c
-packet i64_ {	char[] calculatedFrom , } packet
-trueish  {@calculatedFrom(
-""a\\""")).
-Eval vm_compute in ("<<<M1208>>>" ++ check (runes_of_ascii "packet // c
-o { @tag( 42 ) repeat x { char[ 0123456789 ] i64_ , } , } options { }")).
-Eval vm_compute in ("<<<M1240>>>" ++ check (runes_of_ascii "packet o { @tag( 42 ) repeat x { char[ 0123456789 ] i64_ , } , } // c
-options { }")).
-Eval vm_compute in ("<<<M1823>>>" ++ check (runes_of_ascii "MetaData M {
-    u8 x `a
-        
-        b`,
-    T t `a
-        
-        b`,
+Eval vm_compute in ("<<<M1653>>>" ++ check (runes_of_ascii "options { } packet Packet Packet{char[] i64_ ,
+@tag(
+    255) match
+crc as i8i8{""{,}"" : trueish """" : Pad , ""a\\"" :
+Foo ,
+    1 :packetx
+, """ ++ [128512]%N ++ runes_of_ascii """ : trueish , } , }")).
+Eval vm_compute in ("<<<M1775>>>" ++ check (runes_of_ascii "options { } packet Packet{char[] i64_ ,
+@tag(
+    255) match
+crc as i8i8{""{,}"" : trueish """" : Pad , ""a\\"" :
+Foo ,
+    string :packetx
+, """ ++ [128512]%N ++ runes_of_ascii """ : trueish , } , }")).
+Eval vm_compute in ("<<<M2384>>>" ++ check (runes_of_ascii "
+packet MetaDataX
+{
+    @leftPad
+( // a // b
+'0'
+) i8 u @lengthOf(
+MetaDataX
+    ) `say ""hi""/` ,	} MetaData BodyLength {
+    asx
+x_y_z `" ++ [233]%N ++ runes_of_ascii "`
+, uint64 u128 , }
+")).
+Eval vm_compute in ("<<<M2429>>>" ++ check (runes_of_ascii "
+packet MetaDataX
+@leftPad
+    {
+( // a // b
+'0'
+) i8 u @lengthOf(
+MetaDataX
+    ) `say ""hi""` ,	} MetaData BodyLength {
+    asx
+x_y_z `" ++ [233]%N ++ runes_of_ascii "`
+, uint64 u128 , }
+")).
+Eval vm_compute in ("<<<M1844>>>" ++ check (runes_of_ascii "options { } packet Packet{char[] i64_ ,
+@tag(
+    255) match
+crc as i8i8{""{,}"" : trueish """" : Pad , ""a@x\\"" :
+Foo ,
+    1 :packetx
+, """ ++ [128512]%N ++ runes_of_ascii """ : trueish , } , }")).
+Eval vm_compute in ("<<<M2410>>>" ++ check (runes_of_ascii "
+packet MetaDataX
+{
+    @leftPad
+( // a // b
+'0'
+)  u @lengthOf(
+MetaDataX
+    ) `say ""hi""` ,	} MetaData BodyLength {
+    asx
+x_y_z `" ++ [233]%N ++ runes_of_ascii "`
+, uint64 u128 , }
+")).
+Eval vm_compute in ("<<<M1759>>>" ++ check (runes_of_ascii "options { } packet Packet{char[] i64_ ,
+@tag(
+    255) match
+crc as i8i8{""{,}"" : trueish """" : Pad , ""a\\"" Foo
+: ,
+    1 :packetx
+, """ ++ [128512]%N ++ runes_of_ascii """ : trueish , } , }")).
+Eval vm_compute in ("<<<M1747>>>" ++ check (runes_of_ascii "options { } packet Packet{char[] i64_ ,
+@tag(
+    255) match
+crc as i8i8{""{,}"" : trueish """" : Pad  ""a\\"" :
+Foo ,
+    1 :packetx
+, """ ++ [128512]%N ++ runes_of_ascii """ : trueish , } , }")).
+Eval vm_compute in ("<<<M3397>>>" ++ check (runes_of_ascii "// top
+packet // c0
+o // c1
+{ // c2
+@tag( // c3
+4294967296 // c4
+) // c5
+options1 // c6
+@lengthOf( // c7
+u8x // c8
+) // c9
+`" ++ [233]%N ++ runes_of_ascii "` // c10
+, // c11
+} // c12
+")).
+Eval vm_compute in ("<<<M3933>>>" ++ check (runes_of_ascii "  MetaData
+
+    metadata 
+{
+}MetaData
+rootA { 
+i8	i64_  // c
+  , 
+roots 
+options1 `a\`  ,
+lengthOf	Header
+
+, 
+Z9_ Foo
+    ,int16
+BodyLength , 
+}
+
+")).
+Eval vm_compute in ("<<<M2417>>>" ++ check (runes_of_ascii "
+packet MetaDataX
+{
+    @leftPad
+( // a // b
+'0'
+) i8 u 
+MetaDataX
+    ) `say ""hi""` ,	} MetaData BodyLength {
+    asx
+x_y_z `" ++ [233]%N ++ runes_of_ascii "`
+, uint64 u128 , }
+")).
+Eval vm_compute in ("<<<M849>>>" ++ check (runes_of_ascii "// `tick` ""quote"" 'q'
+MetaData i8i8 // 50% %s
+{ zchar[
+// " ++ [27880; 37322]%N ++ runes_of_ascii "
+/// triple
+42 ] options1 `u8 x,`
+,As
+    leftPad
+    `` , As x
+`two words`  , }")).
+Eval vm_compute in ("<<<M1925>>>" ++ check (runes_of_ascii "packet	packetx { // trailing space 
+x_y_z
+{
+string
+charz ,
+string x// @lengthOf(
+`two words`
+    ,  u8x { // `tick` ""quote"" 'q'
+charz")).
+Eval vm_compute in ("<<<M4065>>>" ++ check (runes_of_ascii "packet A {
+    match k as n {
+        [
+            ""a"", ""bb"", ""c c"", ""d"", ""e"",
+            ""f""
+        ] : B,
+        2 : C,
+    },
 }")).
-Eval vm_compute in ("<<<M817>>>" ++ check (runes_of_ascii "packet A {
+Eval vm_compute in ("<<<M4034>>>" ++ check (runes_of_ascii "packet A {
+    match k as n {
+        [
+            1, 22, ""c c"", 4, 5,
+            ""f"", 7
+        ] : B,
+        2 : C,
+    },
+}")).
+Eval vm_compute in ("<<<M3263>>>" ++ check (runes_of_ascii "MetaData
+// c
+metadata { } MetaData rootA { i8 i64_ , roots options1 `a\` , lengthOf Header , Z9_ Foo , int16 BodyLength , }")).
+Eval vm_compute in ("<<<M3295>>>" ++ check (runes_of_ascii "MetaData metadata { } MetaData rootA { i8 i64_ , roots options1 `a\` , lengthOf Header ,
+// c
+Z9_ Foo , int16 BodyLength , }")).
+Eval vm_compute in ("<<<M1224>>>" ++ check (runes_of_ascii "options {  x_y_z = false zchar
+= """ ++ [128512]%N ++ runes_of_ascii """
+} MetaData falsey{ Header repeatCount
+    /// triple
+    `` , }packet rootA
+    {}")).
+Eval vm_compute in ("<<<M1141>>>" ++ check (runes_of_ascii "options{ //x
+} options// 50% %s
+{falsey= 0123456789 metadata = '0'
+; body
+=char[007
+    ]; falsey
+    =	uint32; }
+")).
+Eval vm_compute in ("<<<M3001>>>" ++ check (runes_of_ascii "packet A {
   match k as n {
-    [1, ""bb"", 007, ""d"", 5] : B
+    [""a"", ""bb"", ""c c"", ""d"", ""e"", ""f"", ""g"", ""h"", ""i"", ""j"", ""k""] : B
     2 : C
   },
 }")).
-Eval vm_compute in ("<<<M372>>>" ++ check (runes_of_ascii "
-packet Z9_ { } // a // b
+Eval vm_compute in ("<<<M3334>>>" ++ check (runes_of_ascii "MetaData float { uint8 BodyLength , } MetaData charz // c
+{ float32 trueish `a\` , i16 metadata `say ""hi""` , }")).
+Eval vm_compute in ("<<<M3463>>>" ++ check (runes_of_ascii "
+packet 
+B { 
+u8
+	a ,	string s ,
+
+} 
 root
-    packet roots{
-    /// triple
+
+    packet P {	u16 L
+    @lengthOf(  B
+
+), B ,
+u8 t
+
+    , } ")).
+Eval vm_compute in ("<<<M306>>>" ++ check (runes_of_ascii "// @lengthOf(
+options
+{
+calculatedFrom
+    =
+//x
+// a // b
+true
+} options {As=
+7
+;}
+packet
+x_y_z {
+}
+
+")).
+Eval vm_compute in ("<<<M3796>>>" ++ check (runes_of_ascii "MetaData 	 // c
+  	_x
+	{ f64 charz`tab	here`
+,
+
+    }options {
+BodyLength
+
+    =
+""" ++ [233]%N ++ runes_of_ascii "t" ++ [233]%N ++ runes_of_ascii """  ;
+
     }")).
-Eval vm_compute in ("<<<M1322>>>" ++ check (runes_of_ascii "MetaData _x { zchar[ 4294967296 ] lengthOf
+Eval vm_compute in ("<<<M2991>>>" ++ check (runes_of_ascii "packet A {
+  match k as n {
+    [""a"", 22, ""c c"", 4, ""e"", 66, ""g"", 8, ""i"", 10] : B,
+    2 : C
+  },
+}")).
+Eval vm_compute in ("<<<M1015>>>" ++ check (runes_of_ascii "packet
+repeatCount // 50% %s
+{ @tag(  3 ) A@calculatedFrom( /// triple
+""\n"" ),	}  options {}
+")).
+Eval vm_compute in ("<<<M2969>>>" ++ check (runes_of_ascii "packet A {
+  match k as n {
+    [""a"", ""bb"", 007, ""d"", ""e"", 66, ""g"", ""h""] : B,
+    2 : C
+  },
+}")).
+Eval vm_compute in ("<<<M655>>>" ++ check (runes_of_ascii "
+packet
+charz
+// 50% %s
+// a // b
+{
+    // 50% %s
+    @calculatedFrom("""" ) pack	,
+    } 	 ")).
+Eval vm_compute in ("<<<M116>>>" ++ check (runes_of_ascii "root
+packet
+zchar{ } packet	options1 {} packet
+roots
+{	T	@calculatedFrom( """ ++ [28040; 24687]%N ++ runes_of_ascii """) ,
+} 	 ")).
+Eval vm_compute in ("<<<M2231>>>" ++ check (runes_of_ascii "MetaData _x {string `// not a comment` x , string
+i64_ // trailing space 
+`a\` ,
+    }
+")).
+Eval vm_compute in ("<<<M324>>>" ++ check (runes_of_ascii "packet
+metadata { i8
+    //
+    Z9_ @lengthOf( Z9_
+    )
+//x
+/// triple
+`it's` ,	} 	 ")).
+Eval vm_compute in ("<<<M2249>>>" ++ check (runes_of_ascii "MetaData _x {string x `// not a comment` , string
+ // trailing space 
+`a\` ,
+    }
+")).
+Eval vm_compute in ("<<<M3888>>>" ++ check (runes_of_ascii "MetaData _x {
+    f64 charz `tab	here`,
+}
+
+options {
+    BodyLength = """ ++ [233]%N ++ runes_of_ascii "t" ++ [233]%N ++ runes_of_ascii """;// c
+}")).
+Eval vm_compute in ("<<<M3222>>>" ++ check (runes_of_ascii "packet A { u16 // a
+ len // b
+ @lengthOf( // c
+ body // d
+ ) // e
+ `d` // f
+ , }")).
+Eval vm_compute in ("<<<M4250>>>" ++ check (runes_of_ascii "packet A {
+    // a
+    @tag(1)
+    u8 x,// b
+    // c
+    @tag(2)
+    u8 y,
+}")).
+Eval vm_compute in ("<<<M3367>>>" ++ check (runes_of_ascii "MetaData _x
 // c
-`// not a comment` , }")).
-Eval vm_compute in ("<<<M1379>>>" ++ check (runes_of_ascii "root packet P {
-    u8 s_u8,
-    repeat u8 r_u8,
-    u16 b_len,
+{ f64 charz `tab	here` , } options { BodyLength = """ ++ [233]%N ++ runes_of_ascii "t" ++ [233]%N ++ runes_of_ascii """ ; }")).
+Eval vm_compute in ("<<<M1721>>>" ++ check (runes_of_ascii "options { } packet Packet{char[] i64_ ,
+@tag(
+    255) match
+crc as i8i8{")).
+Eval vm_compute in ("<<<M3067>>>" ++ check (runes_of_ascii "packet A {
+    B b `tab
+	x`,
+    B `tab
+	x`,
+    repeat B bs `tab
+	x`,
+}")).
+Eval vm_compute in ("<<<M1462>>>" ++ check (runes_of_ascii "packet calculatedFrom
+{ @calculatedFrom( ""a\\"" ) zchar[ 4294967296 ]")).
+Eval vm_compute in ("<<<M3413>>>" ++ check (runes_of_ascii "packet o { @tag( 4294967296 )
+// c
+options1 @lengthOf( u8x ) `" ++ [233]%N ++ runes_of_ascii "` , }")).
+Eval vm_compute in ("<<<M636>>>" ++ check (runes_of_ascii "options //
+{i8i8
+    = ""1"" ; } MetaData uint8x
+{ float uint8x, }")).
+Eval vm_compute in ("<<<M1265>>>" ++ check (runes_of_ascii "options { metadata =
+'\x00' Z9_
+= zchar[
+65535]; A = false }
+
+")).
+Eval vm_compute in ("<<<M1071>>>" ++ check (runes_of_ascii "MetaData
+x{ i8 Header , } //x
+packet string_{  } options{
 }
 ")).
-Eval vm_compute in ("<<<M1742>>>" ++ check (runes_of_ascii "packet Z9_ {
-}// a // b
-
-root packet roots {
-    /// triple
+Eval vm_compute in ("<<<M2882>>>" ++ check (runes_of_ascii "packet A {
+  match k as n {
+    [""a""] : B,
+    2 : C
+  },
 }")).
-Eval vm_compute in ("<<<M2004>>>" ++ check (runes_of_ascii "
-
-  MetaData	/// triple
-pack {
-i64 Header
-	, 
-u64	As,  }")).
-Eval vm_compute in ("<<<M926>>>" ++ check (runes_of_ascii "MetaData M {
+Eval vm_compute in ("<<<M4369>>>" ++ check (runes_of_ascii "root packet A {
     u8 x `a
-b`,
-    T t `a
-b`,
+            b
+          c`,
 }")).
-Eval vm_compute in ("<<<M1614>>>" ++ check (runes_of_ascii "  root
-
-    packet	P 
-{
-
-string
-s
-, }
-
+Eval vm_compute in ("<<<M2301>>>" ++ check (runes_of_ascii "
+MetaData Pad repeat
+u32 rootA `line1
+line2` ,
+    }
 ")).
-Eval vm_compute in ("<<<M1902>>>" ++ check (runes_of_ascii "root packet A {
-    u8 x `a
-    b`,
+Eval vm_compute in ("<<<M3206>>>" ++ check (runes_of_ascii "// a
+MetaData M {} // b
+// c
+MetaData N {} // d
+// e")).
+Eval vm_compute in ("<<<M3861>>>" ++ check (runes_of_ascii "packet As {
+    i8 uint8x `line1
+        line2`,
 }")).
-Eval vm_compute in ("<<<M305>>>" ++ check (runes_of_ascii "
-packet asx{ u64
-MetaDataX
-, }
+Eval vm_compute in ("<<<M2291>>>" ++ check (runes_of_ascii "
+Pad MetaData{
+u32 rootA `line1
+line2` ,
+    }
 ")).
-Eval vm_compute in ("<<<M753>>>" ++ check (runes_of_ascii "NZ:ajvAoE|G&X[2Iou:C^VHSnZ'z*o")).
-Eval vm_compute in ("<<<M2014>>>" ++ check (runes_of_ascii "
+Eval vm_compute in ("<<<M3077>>>" ++ check (runes_of_ascii "root packet A {
+    u8 x `100% of %s %d %v`,
+}")).
+Eval vm_compute in ("<<<M3093>>>" ++ check (runes_of_ascii "options {
+    a = ""x\
+y"";
+    b = ""x\
+y""
+}")).
+Eval vm_compute in ("<<<M3672>>>" ++ check (runes_of_ascii "root packet Z9_ {
+    repeat body `doc`,
+}")).
+Eval vm_compute in ("<<<M3235>>>" ++ check (runes_of_ascii "MetaData zchar // c
+{ zchar[ 3 ] Pad , }")).
+Eval vm_compute in ("<<<M2797>>>" ++ check (runes_of_ascii "&(x!{9/tGAgH-b-%<`3jFjc {n%qe[ES_i:>nY")).
+Eval vm_compute in ("<<<M2636>>>" ++ check (runes_of_ascii "packet A { match k as n { 1 : 2 }, }")).
+Eval vm_compute in ("<<<M2832>>>" ++ check (runes_of_ascii "X" ++ [65533; 20; 65533]%N ++ runes_of_ascii "G?w$" ++ [22; 1; 65533; 11; 20; 65533; 65533; 65533; 65533; 65533; 65533]%N ++ runes_of_ascii "1}" ++ [65533]%N ++ runes_of_ascii "[*Vt" ++ [65533]%N ++ runes_of_ascii "K" ++ [65533; 3; 65533]%N ++ runes_of_ascii "e" ++ [65533; 7; 65533]%N)).
+Eval vm_compute in ("<<<M1013>>>" ++ check (runes_of_ascii "packet	MetaDataX{// @lengthOf(
+}
+")).
+Eval vm_compute in ("<<<M3478>>>" ++ check (runes_of_ascii "root packet P {
+    string s,
+}
+")).
+Eval vm_compute in ("<<<M3176>>>" ++ check (runes_of_ascii "packet A {
+ u8 x `d" ++ [8203]%N ++ runes_of_ascii "`, // c" ++ [8203]%N ++ runes_of_ascii "
+}")).
+Eval vm_compute in ("<<<M4237>>>" ++ check (runes_of_ascii "
+root packet 
+tag
+    { }
+")).
+Eval vm_compute in ("<<<M2597>>>" ++ check (runes_of_ascii "packet A { u8 x `d` `e`, }")).
+Eval vm_compute in ("<<<M3794>>>" ++ check (runes_of_ascii "
 
-  packet
-A {  } 	 // c" ++ [12]%N ++ runes_of_ascii "
+  MetaData	Pad {  }  //")).
+Eval vm_compute in ("<<<M2808>>>" ++ check ([65533]%N ++ runes_of_ascii "}" ++ [65533]%N ++ runes_of_ascii "T" ++ [65533; 65533]%N ++ runes_of_ascii "CqI:" ++ [65533; 65533; 5; 65533]%N ++ runes_of_ascii "g" ++ [65533]%N ++ runes_of_ascii "	" ++ [65533; 65533; 65533]%N ++ runes_of_ascii "m" ++ [65533]%N ++ runes_of_ascii "V")).
+Eval vm_compute in ("<<<M137>>>" ++ check (runes_of_ascii "
+// trailing space 
+")).
+Eval vm_compute in ("<<<M2651>>>" ++ check (runes_of_ascii "packet A { } packet")).
+Eval vm_compute in ("<<<M3130>>>" ++ check (runes_of_ascii "// c" ++ [8192]%N ++ runes_of_ascii "
+packet A {
+}")).
+Eval vm_compute in ("<<<M381>>>" ++ check (runes_of_ascii "  options
+    { }")).
+Eval vm_compute in ("<<<M3909>>>" ++ check (runes_of_ascii "
+
+  /// triple
  
 ")).
-Eval vm_compute in ("<<<M1188>>>" ++ check (runes_of_ascii "options {
-// c
-u8x = 3 }")).
-Eval vm_compute in ("<<<M1642>>>" ++ check (runes_of_ascii "
-// c" ++ [12288]%N ++ runes_of_ascii "
-packet	A
-
-{}
+Eval vm_compute in ("<<<M3705>>>" ++ check (runes_of_ascii "packet u128 {
+}")).
+Eval vm_compute in ("<<<M685>>>" ++ check (runes_of_ascii "// " ++ [128512]%N ++ runes_of_ascii " emoji
 
 ")).
-Eval vm_compute in ("<<<M1000>>>" ++ check (runes_of_ascii "packet A {
-}
-// c" ++ [8192]%N)).
-Eval vm_compute in ("<<<M973>>>" ++ check (runes_of_ascii "packet A {
-}// c ")).
-Eval vm_compute in ("<<<M303>>>" ++ check (runes_of_ascii "options	{
-}
-")).
-Eval vm_compute in ("<<<M1004>>>" ++ check (runes_of_ascii "// c" ++ [8202]%N)).
+Eval vm_compute in ("<<<M2648>>>" ++ check (runes_of_ascii "packet { }")).
+Eval vm_compute in ("<<<M2865>>>" ++ check (runes_of_ascii "JvdXGoLq")).
+Eval vm_compute in ("<<<M2447>>>" ++ check (runes_of_ascii "char [")).
+Eval vm_compute in ("<<<M2530>>>" ++ check (runes_of_ascii """a\""""")).
+Eval vm_compute in ("<<<M2489>>>" ++ check (runes_of_ascii "ROOT")).
+Eval vm_compute in ("<<<M2494>>>" ++ check (runes_of_ascii "'1'")).
+Eval vm_compute in ("<<<M2515>>>" ++ check (runes_of_ascii "@@")).
+Eval vm_compute in ("<<<M2696>>>" ++ check (runes_of_ascii ",")).
